@@ -12,1390 +12,2471 @@ Definition show_fres (r : fres) : string :=
   end.
 Definition check (rs : list rune) : string := digest (show_fres (format_res rs)).
 Definition full (rs : list rune) : string := show_fres (format_res rs).
-Eval vm_compute in ("<<<M1454>>>" ++ check (runes_of_ascii "// top
-options
-    // c0
-{ // c1
-StringPrefixLenType // c2a
-  // c2b
-= // c3
-u16 ;
+Eval vm_compute in ("<<<M3854>>>" ++ check (runes_of_ascii "options {
+    LittleEndian = true;
+    ArrayPrefixLenType = u8;
+    FixedStringPadChar = '0';
+    JavaPackage = ""co\
+        m.example.msg"";
+    GoPackage = ""ms\
+        g"";
+    GoModule = ""example.com/msg"";
+}
+
+MetaData Meta {
+    u32 SeqNum `sequence number`,
+    char[8] Symbol `symbol`,
+    zchar[5] ZSym `z symbol`,
+    string Note,
+    Symbol AltSymbol `alias of symbol`,
+    f64 Price,
+}
+
+packet Inner {
+    u8 a,
+    i16 b,
+    string c,
+}
+
+packet Inner2 {
+    u8 a2,
+    char[3] c2,
+}
+
+packet Logon {
+    u8 x,
+    string user,
+    repeat u16 codes,
+}
+
+packet Logout {
+    u16 reason,
+}
+
+packet Empty {
+}
+
+root packet Msg {
+    u8 su8,
+    uint8 luint8,
+    u16 su16,
+    uint16 luint16,
+    u32 su32,
+    uint32 luint32,
+    u64 su64,
+    uint64 luint64,
+    i8 si8,
+    int8 lint8,
+    i16 si16,
+    int16 lint16,
+    i32 si32,
+    int32 lint32,
+    i64 si64,
+    int64 lint64,
+    f32 sf32,
+    float32 lfloat32,
+    f64 sf64,
+    float64 lfloat64,
+    char[6] fsplain,
+    @leftPad('0')
+    char[4] fs0,
+    @rightPad('0')
+    char[5] fs1,
+    @leftPad(' ')
+    char[6] fs2,
+    @rightPad(' ')
+    char[7] fs3,
+    @leftPad('\x00')
+    char[8] fs4,
+    @rightPad('\x00')
+    char[9] fs5,
+    @leftPad()
+    char[10] fs6,
+    @rightPad()
+    char[11] fs7,
+    zchar[7] fz,
+    @leftPad('0')
+    zchar[3] fzl0,
+    string s1 `doc`,
+    char[] s2,
+    Inner,
+    Sub {
+        u8 q,
+        string w,
+        Deep {
+            u16 z,
+            repeat i32 zs,
+        },
+    },
+    repeat u8 ru8,
+    repeat u16 ru16,
+    repeat u32 ru32,
+    repeat u64 ru64,
+    repeat i8 ri8,
+    repeat i16 ri16,
+    repeat i32 ri32,
+    repeat i64 ri64,
+    repeat f32 rf32,
+    repeat f64 rf64,
+    repeat string rstr,
+    repeat char[] rstr2,
+    repeat char[3] rfs,
+    repeat zchar[3] rfz,
+    repeat Inner2,
+    repeat Grp {
+        u8 k,
+        char[2] v,
+    },
+    SeqNum,
+    SeqNum seq2,
+    repeat SeqNum seqs,
+    Symbol,
+    AltSymbol alt,
+    ZSym,
+    Note,
+    repeat Symbol syms,
+    Price px,
+    u16 MsgType,
+    u32 BodyLen @lengthOf(Body),
+    match MsgType as Body {
+        1 : Logon,
+        [2, 3] : Logout,
+        7 : Logon,
+        9 : Empty,
+    },
+    u32 Checksum @calculatedFrom(""CRC32""),
+}")).
+Eval vm_compute in ("<<<M3556>>>" ++ check (runes_of_ascii "// top
+options // c0a
+  // c0b
+{ LittleEndian = true ;
     // c5
-ArrayPrefixLenType // c6a
-  // c6b
-= // c7a
-  // c7b
-u32 // c8
-; FixedStringPadFromLeft // c10a
-  // c10b
-= // c11
-false
+ArrayPrefixLenType
+    // c6
+= u32
+    // c8
+; } // c10
+packet // c11
+Order
     // c12
-; // c13a
-  // c13b
-FixedStringPadChar // c14a
-  // c14b
-= // c15
-'0'
-    // c16
-; // c17
-}
-    // c18
-packet Logout
+{
+    // c13
+repeat // c14
+u64 // c15
+Acct , // c17a
+  // c17b
+i16 price
+    // c19
+,
     // c20
-{ // c21
-f64 f1 // c23a
-  // c23b
-, // c24
-i16
-    // c25
-Note // c26
-, // c27
-@rightPad ( // c29
-'\x00' // c30
-) char[ // c32
-11 // c33
-] // c34a
-  // c34b
-Flags // c35a
+}
+    // c21
+packet // c22a
+  // c22b
+Logon
+    // c23
+{ // c24
+zchar[ // c25a
+  // c25b
+3 // c26
+] // c27a
+  // c27b
+venue
+    // c28
+, // c29a
+  // c29b
+string // c30
+Flags
+    // c31
+, repeat InQty82 // c34
+{ // c35a
   // c35b
+string // c36
+Px // c37a
+  // c37b
 ,
-    // c36
-} // c37
-packet // c38
-Cancel // c39a
+    // c38
+} // c39a
   // c39b
-{ // c40
-float64
-    // c41
-msgKind ,
-    // c43
-} // c44
+, repeat // c41
+char[ // c42
+1 // c43
+] clOrdID // c45
+, // c46
+}
+    // c47
 packet
-    // c45
-Reject // c46a
-  // c46b
-{ // c47
-InQty43 // c48a
-  // c48b
-{ // c49
-float32 // c50a
+    // c48
+Cancel { // c50a
   // c50b
-sym // c51
-, // c52
-char[ // c53a
-  // c53b
-10
-    // c54
-]
-    // c55
-Tail // c56
-, // c57a
+int32 Tail // c52
+,
+    // c53
+repeat Logon // c55
+,
+    // c56
+repeat // c57a
   // c57b
-uint8 // c58
-venue // c59a
-  // c59b
-, // c60
-uint16
-    // c61
-f1 ,
-    // c63
-char[ 9 ] Acct
+InFlags55
+    // c58
+{ uint64 // c60
+Note // c61a
+  // c61b
+, // c62a
+  // c62b
+repeat // c63
+InQty28
+    // c64
+{ char[] // c66a
+  // c66b
+msgKind
     // c67
-, // c68
-} , // c70
-} // c71a
+, // c68a
+  // c68b
+char[ // c69a
+  // c69b
+7 ] // c71a
   // c71b
-packet Trade
-    // c73
-{ // c74
-char[] // c75a
-  // c75b
-x , // c77a
-  // c77b
-zchar[ // c78
-6 ] // c80
-Note , // c82a
-  // c82b
-repeat // c83a
+OrderId // c72
+, // c73a
+  // c73b
+} // c74a
+  // c74b
+,
+    // c75
+char[] // c76
+Px , // c78
+} , // c80a
+  // c80b
+int16
+    // c81
+Ref
+    // c82
+, // c83a
   // c83b
-Reject // c84a
-  // c84b
-, } root
-    // c87
-packet
-    // c88
-Order // c89a
-  // c89b
-{ // c90a
-  // c90b
-Cancel , Logout // c93
-, // c94a
-  // c94b
-u64 // c95
-Acct // c96
-, u32 // c98a
-  // c98b
-OrderId
-    // c99
-, match // c101
-OrderId // c102a
+} // c84
+root // c85a
+  // c85b
+packet // c86
+Leg // c87a
+  // c87b
+{ repeat Logon , // c91
+char[]
+    // c92
+venue , u16
+    // c95
+Flags // c96
+,
+    // c97
+i16 // c98
+Tail , // c100
+repeat Cancel // c102a
   // c102b
-as // c103
-Body // c104a
+, // c103a
+  // c103b
+u8 // c104a
   // c104b
-{ [ // c106
-127 // c107
-, // c108a
-  // c108b
-70
-    // c109
-] : // c111a
-  // c111b
-Reject
-    // c112
-, 177 // c114a
-  // c114b
-: // c115
-Trade ,
-    // c117
-58
-    // c118
-: // c119a
-  // c119b
-Logout , 75 // c122
-:
-    // c123
-Cancel // c124a
-  // c124b
-,
-    // c125
-}
-    // c126
-, u32 // c128a
-  // c128b
-Tail
-    // c129
-@calculatedFrom(
-    // c130
-""CRC32"" // c131
-) // c132a
-  // c132b
-, // c133
-} // c134
-")).
-Eval vm_compute in ("<<<M1580>>>" ++ check (runes_of_ascii "
-MetaData
-i8i8
-
-    // trailing space 
-{ Pad rootA`tab	here`//
-  , 
-x_y_z
-
-metadata	,  zchar[
-    255
-	]
-x_y_z	`doc` ,
-
-    metadata i8i8
-
-,	uint8x
-leftPad `say ""hi""` 
-,
-
-    int32	charz
-    `" ++ [28040; 24687; 31867; 22411]%N ++ runes_of_ascii "`,  }
-packet
-
-    len 
-{ char[ 255
-    ]
-f32a  //x
-@calculatedFrom(  ""a	b"" )  `// not a comment`	, f64
-u8x
-        //
-// `tick` ""quote"" 'q'
-, options1
-
-    {
-string
-	charz  `u8 x,`
-
-, 
-string_// packet A { u8 x, }
-	  @calculatedFrom(	// " ++ [27880; 37322]%N ++ runes_of_ascii "
-      ""a	b""	)
-
-    ,
-
-repeat
-    falsey { a1
-
-`it's` , stringy@lengthOf( 
-Foo )	,repeat  zchar[	10]
-
-Logon  `line1
-line2`,  uint16	repeatCount
-
-    @lengthOf( options1)
-	`doc`
-
-    ,
-}
-
-, repeat//x
-	u packetx,	} ,
-falsey 
-x_y_z ,	char[]
-matchKey`u8 x,`
-	,}
-    packet
-	float{
-@lengthOf(Foo
-
-)
-u16
-	a1
-
-`crlf
-line`// `tick` ""quote"" 'q'
-	,
-    // `tick` ""quote"" 'q'
-	@leftPad () 
-@lengthOf( string_ // `tick` ""quote"" 'q'
-  )match
-
-    asx 
+Side2 ,
+    // c106
+match // c107
+Side2
+    // c108
 as
-
-lengthOf  { """":f32a
-    ,
-    }
-
-    , roots
-    { 
-f32
-A `a\` 
-,	i8 
-trueish
-@lengthOf(
-    rootA 
-) ,
-
-} , options1 
-@lengthOf( 
-_x	)
-	, 	 /// triple
-	@lengthOf(
-
-asx	// `tick` ""quote"" 'q'
-  )
-    charz 
-    // " ++ [27880; 37322]%N ++ runes_of_ascii "
-    ,
-    zchar[
-    10
-]	a1 
-@calculatedFrom(
-""// no comment"" ) 
-`say ""hi""`
-
-    ,  //x
-  uint16
-	x
-    @calculatedFrom(
-
-    ""a\\""
-
-) 
-,
-	}
-
+    // c109
+Body
+    // c110
+{ 151 : Logon // c114
+, // c115
+148 // c116
+:
+    // c117
+Order
+    // c118
+, // c119
+162 // c120a
+  // c120b
+: // c121
+Cancel ,
+    // c123
+} // c124a
+  // c124b
+, // c125a
+  // c125b
+u16 // c126
+x @calculatedFrom( // c128a
+  // c128b
+""CRC32"" // c129
+)
+    // c130
+, // c131a
+  // c131b
+} // c132a
+  // c132b
 ")).
-Eval vm_compute in ("<<<M196>>>" ++ check (runes_of_ascii "packet
-a1
-    { @rightPad
-    ( ' '  ) repeat	a1 ,
-    //	t
-    repeat
-float32 i8i8	`two words`, @lengthOf( A ) float zchar ,@rightPad(
-'0'
-)	uint32 o `doc`
-, @calculatedFrom( ""packet""
-    )	repeat
-asx `crlf
-line`//	t
-, @tag( 007 )
-@calculatedFrom(	""CRC32""
-)repeat uint64 A `line1
-line2` , @leftPad ( '\x00'
-)
-// packet A { u8 x, }
+Eval vm_compute in ("<<<M1002>>>" ++ check (runes_of_ascii "packet // " ++ [128512]%N ++ runes_of_ascii " emoji
+rootA
+{ string	f32a @calculatedFrom("""" )
+, u128@lengthOf( T ) , repeat body {
+    match uint8x as
+len  { ""`tick`"" :
+    Packet
+    ,  00
+    : x_y_z [
+""\" ++ [233]%N ++ runes_of_ascii """ ,""a\\"" ] : trueish	007 : charz ,
+    """ ++ [28040; 24687]%N ++ runes_of_ascii """// c
+:
+    chars ,}
+    , repeat
+int16 _x`a\`
+,
+    int16  options1
+    //x
+    @calculatedFrom(
+""a\\"" ),  match BodyLength
+    // trailing space 
+    as
+    options1  { 42
+// c
 //x
-string stringy `` , @rightPad( '\x00' ) @tag( 255 /// triple
+:Packet ,007 : packetx """ ++ [128512]%N ++ runes_of_ascii """
+// " ++ [128512]%N ++ runes_of_ascii " emoji
+// 50% %s
+: crc /// triple
+, }
+,	} , @tag( 65535
 )
-body
-    @lengthOf( Z9_	)
-,match
-x_y_z
+@calculatedFrom(	""`tick`"" )
+@calculatedFrom(
+""a\\"" ) crc `{ , }` ,
+@lengthOf( Pad	) zchar[0 ]Pad
+`
+`
+,  Header
+@lengthOf(  leftPad )
+// " ++ [27880; 37322]%N ++ runes_of_ascii "
+// 50% %s
+`` , i8i8 Header`two words` , @lengthOf( falsey) @leftPad (
+    '\x00')@calculatedFrom( """ ++ [28040; 24687]%N ++ runes_of_ascii """)
+    repeat
+zchar[7] _x	,	}
+packet
+    //	t
+    matchKey{body
+@lengthOf( lengthOf ), // " ++ [27880; 37322]%N ++ runes_of_ascii "
+u8
+    matchKey
+    `say ""hi""` // " ++ [27880; 37322]%N ++ runes_of_ascii "
+,
+@leftPad () char[3 ] rootA @calculatedFrom(""packet""
+),  match As as
 // packet A { u8 x, }
 // " ++ [128512]%N ++ runes_of_ascii " emoji
-as
-falsey{""\" ++ [233]%N ++ runes_of_ascii """: options1
-, } ,Logon falsey
-// c
-// " ++ [27880; 37322]%N ++ runes_of_ascii "
-`say ""hi""`
-, } packet// " ++ [128512]%N ++ runes_of_ascii " emoji
-Foo { }options {
-// @lengthOf(
-// `tick` ""quote"" 'q'
-f32a
-=	""a\""b"" ;
-float= '0' ;  calculatedFrom
-    = 65535
-    ; msg_type= '0';
-    // trailing space 
-    A = """"
-} root packet
-string_ {
-match float as u128{ [ ""\n""
-]	:// trailing space 
-Packet , }
-    ,} packet charz { lengthOf @calculatedFrom(
-    // " ++ [128512]%N ++ runes_of_ascii " emoji
-    """ ++ [28040; 24687]%N ++ runes_of_ascii """)
-,
-    @leftPad
-( ' ' ) repeat chars`" ++ [28040; 24687; 31867; 22411]%N ++ runes_of_ascii "`, match leftPad
-    as a1 {
-    ""`tick`"" :
-    string_ // c
-,
-// c
-// c
-10
-:
-    string_, 4294967296// a // b
-: Foo
-, } , }")).
-Eval vm_compute in ("<<<M1429>>>" ++ check (runes_of_ascii "
-
-  options{ 
-LittleEndian
-	=
-    true
-	; StringPrefixLenType =
-u32	;	FixedStringPadChar
-
-    = '0'  ;
-}
-	packet
-	Logout
-{ repeat
-
-InMsgkind49 {
-
-u8
-	pad0  ,
-} 
-,
-repeat char[	5	]  seqNo,
-
-repeat	u8 price  ,	}
-
+x_y_z { [ ""// no comment"", 007 ,
+65535] :
+int } // 50% %s
+, @lengthOf(  lengthOf ) zchar[65535 ] A
+@calculatedFrom( ""packet""	) , repeat //	t
+tag string_  `tab	here`	,
+f64 rootA ,uint16 calculatedFrom @calculatedFrom(
+""" ++ [28040; 24687]%N ++ runes_of_ascii """ )`{ , }`,}root
 packet
-
-Party {
-    zchar[7
-
-    ] 
-Qty , }packet
-Logon
-{
-repeat InRef10	{
-    string  price  ,
-char[]sym	, repeat Logout
-,} 
-, repeat
-
-    char[
-    3]
-
-count	, repeat
-    Party,
-char[]
-
-tag7 ,	@rightPad ('0'
-	) char[2
-	]
-clOrdID , }packet
-	Order {
-
-InTail13
-    { Party 
-,
-    }
-	,  repeat
-
-    char[
-4
-    ]count
-	, 
-}  root
-
-packet	Cancel  { Logout	,	@leftPad
-
-    ( '0' 
-)
-
-char[  9]  msgKind
-	,string lastPx
-
-    ,
-string tag7
-,  zchar[  1
-	] OrderId
-,
-repeat
-	Party
-, u16
-sym
-	, u16  Acct@lengthOf(
-Body)
-    , 
-match sym
-
-    as 
-Body{	[
-	24,
-44
-    ]  :
-    Logout
-,
-
-160 : Order ,
-91 :
-
-Logon
-
-    ,
-	43
-:
-Party
-
-    ,
-    }
-    ,  u16 Tail
-	@calculatedFrom(""CRC32""
-    )
-,	}
-")).
-Eval vm_compute in ("<<<M1681>>>" ++ check (runes_of_ascii "
-options
-    {
-	// c
-
-  //x
-    u128
-=
-true
-
-    ;	Header// trailing space 
-	=
-
-    ""packet""stringy
-=
-""CRC32""
-
-A = '0'	; 
-}
-
-    packet 
-calculatedFrom
-{
-
-    repeat u128
-
-Logon ,
+    float {@lengthOf(
+a1	)
+    // c
+    @lengthOf(// trailing space 
+Logon )repeat // " ++ [128512]%N ++ runes_of_ascii " emoji
+string
+Packet ,
+Logon falsey `" ++ [28040; 24687; 31867; 22411]%N ++ runes_of_ascii "` ,
+    @calculatedFrom(
+    ""1"") @calculatedFrom(
+""" ++ [28040; 24687]%N ++ runes_of_ascii """
+) @lengthOf(T)zchar[
+    7]MetaDataX
+    `say ""hi""` ,repeat
+    a1 { float32 i64_ , }
+, char[  65535 ] As , } 	 ")).
+Eval vm_compute in ("<<<M777>>>" ++ check (runes_of_ascii "// 50% %s
+options {}
+packet BodyLength
+{ msg_type @lengthOf( Header) , body	u8x	, char[
+    //x
+    255 ]msg_type	,
+    // @lengthOf(
+    int {stringy {repeat i8i8 zchar , match o //	t
+as lengthOf
     // packet A { u8 x, }
-
-	// " ++ [128512]%N ++ runes_of_ascii " emoji
-	} 
-packet body
-    {
-@calculatedFrom( ""\" ++ [233]%N ++ runes_of_ascii """
-)
-metadata `a\`,
-
-    // c
-    // c
-    stringy {
-
-//	t
-	uint8	A
-`tab	here`,
-	repeat
-
-u
-        // `tick` ""quote"" 'q'
-      As
-, 	 /// triple
-zchar[
-
-65535
-
-]
-x_y_z @lengthOf(
-
-    crc
-
-)	//
-  ,
-} 
-,
-    @calculatedFrom(
-	""{,}"")
-    len /// triple
-	@lengthOf(
-roots	)
-    ,
-	char[ 7  ]	BodyLength
-
-    `{ , }`
-	,
-    // c
-  int64 
-_x 
-,
-
-    @calculatedFrom(
-
-    ""it's"" 	 // " ++ [27880; 37322]%N ++ runes_of_ascii "
-
-  )match
-
-    pack as
-As  {
-""CRC32""	:
-
-o  ,
-
-}
-    , zchar[
-4294967296
-
-    ]  i64_@calculatedFrom( 
-""// no comment"" )
-
-,
-    }
-")).
-Eval vm_compute in ("<<<M1440>>>" ++ check (runes_of_ascii "options { 
-LittleEndian =
-
-    false ;  StringPrefixLenType=
-
-    u16
-;	ArrayPrefixLenType=  u32
-; }
-
-    packet 
-Order
-
-    {
-
-    uint8
-x
-	,repeat
-string venue
-	, }packet Heartbeat { i64 count,
-zchar[
-
-    1 ]
-Qty
-
-    ,
-
-    repeat
-	InX29  {
-
-InSeqno26
-    { 
-int64 f1,char[	5 
-]
-
-Acct
-
-    ,
-
-    Order , }	,
-
-    repeat
-    InSide285{
-
-repeat
-	Order
-    ,	char[ 10
-	]Px, zchar[
-
-9  ]OrderId
-    ,}
-
-    , char[]
-	venue
-,Order,
-}
-
-,
-
-@rightPad(
-'\x00'	)	char[
-	4
-    ]
-clOrdID
-
-,
-
-} 
-root packet	Party { zchar[3]
-
-    f1 
-, u32 clOrdID 
-,
-    u32 Px
-	@lengthOf( 
-Body)
-
-,match clOrdID as
-    Body
-{ [
-
-    180
-	,
-64 
-] :Heartbeat , 11  :
-Order
-,	}
-,
-u32  Side2  @calculatedFrom(
-""CRC32""
-    )	,}
-
-")).
-Eval vm_compute in ("<<<M326>>>" ++ check (runes_of_ascii "options {
-a1 = '\x00';Pad=
-char[007 ] ;
-} MetaData o{
-zchar[  42] crc ,
-} /// triple
-packet matchKey { @lengthOf( u ) @tag(	65535 )
+    { 0123456789 :  T // trailing space 
+, 255: A}
+, repeat char[ 007 ] crc
+`` , match  options1
+as  falsey { 7 : body  , }
+//x
+// " ++ [27880; 37322]%N ++ runes_of_ascii "
+, }
+    , string_
+{ match metadata
+as As{
+3 : x,[ ""\n""
+]:Packet, ""a\\"":float
+    , 007:
 i8i8
-    `// not a comment`,match
-    u128 as msg_type
-{10 : //	t
-zchar
-    0 : lengthOf ,3
-:uint8x
-, ""x y"" :
-msg_type , 255  :
-matchKey , } ,char[  3 //
-] // trailing space 
-As `a\`,
-@lengthOf( // c
-calculatedFrom) match //	t
-chars
-as u128{
-    // packet A { u8 x, }
-    [""a	b"" , 00/// triple
+    ,
+    } , As//
+{
+As , }//x
+, match	x as  matchKey { [ ""CRC32"" , ""abc""
+    ] :
+    options1// packet A { u8 x, }
+, 1
+    :	packetx, ""\" ++ [233]%N ++ runes_of_ascii """	:tag
+    ,} , match u8x // 50% %s
+as
+    As// a // b
+{ 7 :	MetaDataX [""packet"" , 4294967296
+, ""\n""
+,""// no comment""
+, ""\" ++ [233]%N ++ runes_of_ascii """
+// packet A { u8 x, }
+//x
 ] :
-zchar , // `tick` ""quote"" 'q'
-7 : leftPad [255 // @lengthOf(
-,
-""x y""
-, 4294967296
-    //	t
-    ,	0 ,
-    //
-    3
+body
+, 0
+    : A , [ """ ++ [233]%N ++ runes_of_ascii "t" ++ [233]%N ++ runes_of_ascii """ ,
 // a // b
-//x
-] :
-    Packet, // `tick` ""quote"" 'q'
-[ """ ++ [128512]%N ++ runes_of_ascii """
-] : body ,
-    """ ++ [28040; 24687]%N ++ runes_of_ascii """
-:
-    Z9_ , }
+// a // b
+""\n"" ] :
+    f32a ,//
+""it's"": tag
 ,
-} options { }
-")).
-Eval vm_compute in ("<<<M1416>>>" ++ check (runes_of_ascii "packet Logon // c1
-{ // c2
-string // c3a
-  // c3b
-user // c4
-, // c5a
-  // c5b
 }
-    // c6
-root packet Frame // c9a
-  // c9b
-{
-    // c10
-u8
-    // c11
-K , // c13
-match
-    // c14
-K
-    // c15
-as
-    // c16
-Body // c17a
-  // c17b
-{ 1 // c19a
-  // c19b
-: Logon // c21
-, // c22a
-  // c22b
-2 :
-    // c24
-Logout
-    // c25
-, } ,
-    // c28
-Tail , } packet // c32
-Logout
-    // c33
-{ // c34
-u16 // c35a
-  // c35b
-reason // c36a
-  // c36b
-, // c37
-} // c38a
-  // c38b
-packet // c39a
-  // c39b
-Tail // c40
-{ u32
-    // c42
-crc , // c44a
-  // c44b
-} // c45a
-  // c45b
-")).
-Eval vm_compute in ("<<<M335>>>" ++ check (runes_of_ascii "packet Logon//x
-{ @calculatedFrom( ""a	b""
-    ) repeat options1 , @calculatedFrom(
-    ""a\\"") // c
-char[] options1 `it's`, @tag(4294967296 ) repeat Logon
-{match trueish as
-    u128
-    {""x y""
-    //	t
-    :// c
-i64_
-    ,
-    [ 4294967296 , 007, 10 ]: i8i8 , } ,
-//
-// @lengthOf(
-T	`u8 x,` ,repeat uint64 T `u8 x,`
-, } , } options // @lengthOf(
-{u128 =// trailing space 
-'0'tag =  true
-    ; Packet  = char[ 0123456789 ] ;
-    Foo = 007 body
-= 3 ;
-    } packet i64_
-{ }
-//x
-")).
-Eval vm_compute in ("<<<M1868>>>" ++ check (runes_of_ascii "// top
-packet P1 {
-    // c2
-    u8 a,// c5
-}
-
-// c6
-packet P2 {
-    // c9
-    P1,// c11
-}
-
-packet P3 {
-    P2,
-    P1,
-}
-
-// c20
-packet P4 {
-    repeat P3,
-    // c26
-    P2,// c28
-}
-
-// c29
-root packet P5 {
-    // c33
-    P4,// c35a
-    // c35b
-    P3,// c37
-    P1,
-    u8 K,// c42
-    match K as Body {
-        // c47
-        4 : P4,
-        3 : P3,
-        2 : P2,
-        // c59
-        1 : P1,
-    },// c65
-}
-// c66")).
-Eval vm_compute in ("<<<M1424>>>" ++ check (runes_of_ascii "options {
-    LittleEndian = false;
-    StringPrefixLenType = u32;
-    ArrayPrefixLenType = u16;
-}
-packet Party {
-    @leftPad('0') char[12] Ref,
-    repeat char[6] x,
-}
-packet Logon {
-    uint32 clOrdID,
-    Party,
-}
-root packet Ack {
-    zchar[2] f1,
-    u32 seqNo,
-    u32 Side2 @lengthOf(Body),
-    match seqNo as Body {
-        43 : Logon,
-        93 : Party,
+, }, pack	@calculatedFrom( ""packet"") `100% of %d` ,}
+, char[
+    0123456789 ]i8i8
+    `" ++ [233]%N ++ runes_of_ascii "`, @calculatedFrom(""\n"" )
+    repeat  tag
+    // 50% %s
+    lengthOf , zchar { i16 falsey,
+    // trailing space 
     },
-}
-")).
-Eval vm_compute in ("<<<M209>>>" ++ check (runes_of_ascii "
-packet //
-u8x
-    {
-    @lengthOf( Logon )
-    u128 { //x
-Logon@lengthOf( msg_type
-), }
-    ,  repeat
-uint8x
-, // @lengthOf(
-int64 // c
-o `tab	here`
-    , }MetaData
-    int{// " ++ [128512]%N ++ runes_of_ascii " emoji
-char[]
-    // `tick` ""quote"" 'q'
-    chars `it's`,	int crc `{ , }`, // @lengthOf(
-}root packet chars
-    { char[]
-x_y_z , }
-// trailing space 
-")).
-Eval vm_compute in ("<<<M1399>>>" ++ check (runes_of_ascii "packet
-    A 
-{	u8
-a
-	,
-    }
-packet B{u16 b , } packet
-	C{u32 c , 
-}
-root  packet M{u16
-
-    Kc , 
-u16 Kb ,  u16 Ka
-
-,
-
-    match Kc
-as
-
-X{ 9
-    :
-
-    A, 10
-	: 
-B
-
-,	}
-
-, match	Kb 
-as 
-Y	{2 :
-C
-    ,
-
-    1: A 
-,
-    }
-
-,
-
-    match 
-Ka
-as Z{  1
-    :
-	B
-, 
-} 
-, A, B,
-C,
-    }
-
-")).
-Eval vm_compute in ("<<<M1403>>>" ++ check (runes_of_ascii "packet MDSnapshotZZ {
-    u8 a,
-}
-packet OrderACK {
-    u16 b,
-}
-packet HTTPServerInfo {
-    string s,
-}
-root packet FIXMsg {
-    u8 KType,
-    MDSnapshotZZ,
-    repeat OrderACK,
-    match KType as Body {
-        1 : HTTPServerInfo,
-        2 : OrderACK,
-    },
-}
-")).
-Eval vm_compute in ("<<<M1392>>>" ++ check (runes_of_ascii "packet order_item // c1a
-  // c1b
-{ u8 // c3
-a
-    // c4
-, } // c6a
-  // c6b
-root // c7a
-  // c7b
-packet // c8a
-  // c8b
-new_order {
-    // c10
-order_item // c11
-, // c12a
-  // c12b
-u8
-    // c13
+zchar[
+//	t
+//	t
+4294967296 ] len , @leftPad ( '0'
+    ) repeat i16
+tag
+    , repeat a1 repeatCount
+    , } packet x{@tag(0123456789)packetx ``, @lengthOf( falsey // " ++ [27880; 37322]%N ++ runes_of_ascii "
+)len @lengthOf(
+    len	),
+@tag(	255 ) repeat matchKey
+, } options
+{ Foo
+= u32 ; // @lengthOf(
 x
-    // c14
-, // c15
-} // c16a
-  // c16b
-")).
-Eval vm_compute in ("<<<M502>>>" ++ check (runes_of_ascii "options
-{
-matchKey = 42/// triple
-x='0' ;
-// packet A { u8 x, }
+= char[3 ] }")).
+Eval vm_compute in ("<<<M798>>>" ++ check (runes_of_ascii "options {
+} packet a1 { char[10
 //
-charz
-=
-// packet A { u8 x, }
-// trailing space 
-true  ; } MetaData BodyLength
-{
-uint8
-pack,zchar[ 1]float float ,  float32 x_y_z `` ,u32
-_x,i16 body  , }
-")).
-Eval vm_compute in ("<<<M402>>>" ++ check (runes_of_ascii "options
-{
-matchKey = = 42/// triple
-x='0' ;
-// packet A { u8 x, }
-//
-charz
-=
-// packet A { u8 x, }
-// trailing space 
-true  ; } MetaData BodyLength
-{
-uint8
-pack,zchar[ 1]float ,  float32 x_y_z `` ,u32
-_x,i16 body  , }
-")).
-Eval vm_compute in ("<<<M524>>>" ++ check (runes_of_ascii "options
-{
-matchKey = 42/// triple
-x='0' ;
-// packet A { u8 x, }
-//
-charz
-=
-// packet A { u8 x, }
-// trailing space 
-true  ; } MetaData BodyLength
-{
-uint8
-pack,zchar[ 1]float ,  float32 x_y_z u32 ,u32
-_x,i16 body  , }
-")).
-Eval vm_compute in ("<<<M481>>>" ++ check (runes_of_ascii "options
-{
-matchKey = 42/// triple
-x='0' ;
-// packet A { u8 x, }
-//
-charz
-=
-// packet A { u8 x, }
-// trailing space 
-true  ; } MetaData BodyLength
-{
-uint8
-pack zchar[ 1]float ,  float32 x_y_z `` ,u32
-_x,i16 body  , }
-")).
-Eval vm_compute in ("<<<M406>>>" ++ check (runes_of_ascii "options
-{
-matchKey = /// triple
-x='0' ;
-// packet A { u8 x, }
-//
-charz
-=
-// packet A { u8 x, }
-// trailing space 
-true  ; } MetaData BodyLength
-{
-uint8
-pack,zchar[ 1]float ,  float32 x_y_z `` ,u32
-_x,i16 body  , }
-")).
-Eval vm_compute in ("<<<M459>>>" ++ check (runes_of_ascii "options
-{
-matchKey = 42/// triple
-x='0' ;
-// packet A { u8 x, }
-//
-charz
-=
-// packet A { u8 x, }
-// trailing space 
-true  ; } { BodyLength
-{
-uint8
-pack,zchar[ 1]float ,  float32 x_y_z `` ,u32
-_x,i16 body  , }
-")).
-Eval vm_compute in ("<<<M705>>>" ++ check (runes_of_ascii "// c
-packet i64_ {	char[] calculatedFrom calculatedFrom , } packet
-trueish  {@calculatedFrom(
-""a\\"" ) o { i32 falsey@lengthOf( uint8x ),
-} , } // `tick` ""quote"" 'q'
-options {// c
-Z9_ = ' '//
-}
-")).
-Eval vm_compute in ("<<<M1510>>>" ++ check (runes_of_ascii "// top
-packet o {
-    // c2
-    @tag(42)
-    // c5
-    repeat x {
-        // c8
-        char[0123456789] i64_,
-        // c13
-    },
-    // c15
-}
-
-// c16
-options {
-    // c18
-}
-// c19")).
-Eval vm_compute in ("<<<M718>>>" ++ check (runes_of_ascii "// c
-packet i64_ {	char[] calculatedFrom , } packet
-trueish  {@calculatedFrom(
-""a\\"" ) o { i32 falsey@lengthOf( ) uint8x,
-} , } // `tick` ""quote"" 'q'
-options {// c
-Z9_ = ' '//
-}
-")).
-Eval vm_compute in ("<<<M1486>>>" ++ check (runes_of_ascii "
-
-  packet
-
-    A
-
-{ match
-    k  as
-n{
-[""a"" 
-,""bb""
-
-    ,
-
-    ""c c"" ,""d"" , ""e"",	""f""
-,
-""g"" 
-,
-""h""
-	,
-""i""
-
-    , ""j"",
-    ""k"" 
-,""l""  ]
-
-:
-
-B 
-2
-    :	C 
-},}
-")).
-Eval vm_compute in ("<<<M83>>>" ++ check (runes_of_ascii "packet // trailing space 
-msg_type { repeat string
 // `tick` ""quote"" 'q'
-// @lengthOf(
-BodyLength  `two words`
-// packet A { u8 x, }
-// packet A { u8 x, }
+] msg_type@calculatedFrom(""packet"" )`tab	here` ,
+string  Foo
+@calculatedFrom(
+    ""`tick`"") `tab	here` , float64 pack `` , repeat float matchKey`{ , }`
+    ,	@calculatedFrom(
+    // c
+    ""1"" )@calculatedFrom( // trailing space 
+""a\""b""
+) @tag(4294967296
+) repeat
+f32 lengthOf	, @lengthOf(
+tag ) @lengthOf(
+crc
+) char[ 0123456789 ] Logon`" ++ [28040; 24687; 31867; 22411]%N ++ runes_of_ascii "` , @tag(4294967296)@tag(
+0123456789 ) @lengthOf(u ) char[] calculatedFrom
+@lengthOf(// a // b
+BodyLength) ,	@tag( 3) repeat // c
+len
+    { char[]
+// `tick` ""quote"" 'q'
+// " ++ [128512]%N ++ runes_of_ascii " emoji
+x_y_z
+, match leftPad	as As { // " ++ [27880; 37322]%N ++ runes_of_ascii "
+3 :	f32a,
+    // c
+    007 //	t
+: falsey
+    ""// no comment""  : Header 00:
+// 50% %s
+// " ++ [27880; 37322]%N ++ runes_of_ascii "
+Foo , 0 : charz ,  00 : Foo } ,	match
+pack as a1 {[
+    42
+, ""{,}"" , ""\" ++ [233]%N ++ runes_of_ascii """
+,
+""" ++ [28040; 24687]%N ++ runes_of_ascii """ // @lengthOf(
+, 255 , ""`tick`"" , ""x y"" , ""{,}""] : o
+    , [// trailing space 
+""// no comment"" ]
+: As ,
+    } ,char[] zchar`tab	here` // " ++ [128512]%N ++ runes_of_ascii " emoji
+,}, @leftPad (
+    )
+/// triple
+// " ++ [27880; 37322]%N ++ runes_of_ascii "
+MetaDataX@calculatedFrom( ""\n"" ) ,
+    @lengthOf( calculatedFrom)
+@calculatedFrom(
+    ""it's"" ) // " ++ [27880; 37322]%N ++ runes_of_ascii "
+@rightPad(' '
+)repeat BodyLength
+{
+repeat chars { repeat u8// trailing space 
+u `say ""hi""` ,
+}
+    , f64 lengthOf
+, zchar[ 4294967296]	packetx , }	,
+    }")).
+Eval vm_compute in ("<<<M97>>>" ++ check (runes_of_ascii "packet x {@lengthOf( msg_type ) i64_ @calculatedFrom(
+""""
+    )`a\`, @calculatedFrom(""packet"" // a // b
+)string
+chars `it's` ,repeat Z9_ { repeat metadata `` , char[]zchar
+, repeat
+    trueish {
+    uint8x, } , float32 asx // @lengthOf(
+`100% of %d` , }
+    ,@lengthOf( pack)
+    float32 string_
+    `line1
+line2` , x @lengthOf( lengthOf
+) // " ++ [128512]%N ++ runes_of_ascii " emoji
+, repeat	roots
+    //	t
+    `a\` ,
+    } packet falsey { int64	msg_type  @lengthOf( Z9_ )
+    , repeat Z9_ , T	, @lengthOf( // " ++ [27880; 37322]%N ++ runes_of_ascii "
+BodyLength ) repeat char u128 ,@rightPad ()
+@tag(
+65535)// c
+string a1 @calculatedFrom(
+    ""it's""  ) ,repeat // packet A { u8 x, }
+char[ 65535 // 50% %s
+]matchKey `{ , }` , @lengthOf( asx
+    ) // c
+match BodyLength as As{
+    [ //	t
+65535
+,
+""" ++ [28040; 24687]%N ++ runes_of_ascii """ ,// trailing space 
+""a	b""  , 3
+, ""// no comment""] : As
+    // `tick` ""quote"" 'q'
+    ,
+    [
+    4294967296  ,
+""1""
+    ,""" ++ [128512]%N ++ runes_of_ascii """
+, 42 ,
+255 ]
+: Header, 42
+    :
+Z9_, }, @tag( 42 ) @tag( 42)
+@calculatedFrom( ""// no comment"" )
+    // @lengthOf(
+    i8 Pad// @lengthOf(
+`" ++ [233]%N ++ runes_of_ascii "` ,@calculatedFrom( """ ++ [28040; 24687]%N ++ runes_of_ascii """
+    )@rightPad (' ' )
+f32
+Foo @calculatedFrom( ""packet""
+    // @lengthOf(
+    ) , string a1 @lengthOf(uint8x)
 , }
 ")).
-Eval vm_compute in ("<<<M93>>>" ++ check (runes_of_ascii "MetaData  falsey { i64
-    A // " ++ [27880; 37322]%N ++ runes_of_ascii "
-, string
-Header
-,	zchar[	10 ]
-Foo `" ++ [28040; 24687; 31867; 22411]%N ++ runes_of_ascii "`
-    // @lengthOf(
-    ,packetx
-    body, f32a  MetaDataX `it's`,  }
-")).
-Eval vm_compute in ("<<<M1499>>>" ++ check (runes_of_ascii "packet A {
-    match k as n {
+Eval vm_compute in ("<<<M3639>>>" ++ check (runes_of_ascii "root packet f32a {
+}
+
+root packet matchKey {
+    char[1] metadata,
+    char[] u128 @lengthOf(msg_type) `doc`,
+    @lengthOf(uint8x)
+    match zchar as options1 {
+        0123456789 : x,
+        007 : repeatCount,
+        [""packet"", 0123456789, ""// no comment"", ""x y""] : Header,
+        3 : MetaDataX,
+        ""// no comment"" : len,
+        [0] : Header,
+    },
+    repeat f32a {
+        // " ++ [27880; 37322]%N ++ runes_of_ascii "
+        repeat Header,
+        // 50% %s
+        calculatedFrom {
+            a1 {
+                leftPad `a\`,
+                zchar[255] f32a @calculatedFrom(""\n"") `100% of %d`,
+                Foo @lengthOf(o) `two words`,
+            },
+        },
+    },
+    char[00] f32a @calculatedFrom(""" ++ [128512]%N ++ runes_of_ascii """) `u8 x,`,
+    match tag as matchKey {
         [
-            1, ""bb"", 007, ""d"", 5,
-            ""f"", 7, ""h""
-        ] : B,
-        2 : C,
+            3, ""\n"", 255, 007, ""CRC32"",
+            ""`tick`""
+        ] : o,
+    },
+    repeat f64 rootA,
+}
+
+options {
+}
+
+MetaData trueish {
+    string int,// " ++ [27880; 37322]%N ++ runes_of_ascii "
+    char[65535] trueish,
+    char[] body `u8 x,`,
+    pack matchKey `a\`,
+    f32 Header,
+    string_ Foo,
+}
+
+options {
+    roots = int32;
+    Pad = zchar[255]// " ++ [128512]%N ++ runes_of_ascii " emoji
+}")).
+Eval vm_compute in ("<<<M3875>>>" ++ check (runes_of_ascii "// a // b
+root packet asx {
+}
+
+root packet asx {
+    @calculatedFrom(""\n"")
+    metadata @lengthOf(T),
+    @lengthOf(x)
+    Logon @calculatedFrom(""""),
+    @calculatedFrom(""a	b"")
+    x_y_z `a\`,
+    stringy {
+        uint64 float `doc`,//
+    },
+    @tag(7)
+    @lengthOf(MetaDataX)
+    @tag(10)
+    string packetx `a\`,
+    int @calculatedFrom(""it's""),
+    A trueish,
+    @calculatedFrom(""{,}"")
+    i32 chars,
+}
+
+root packet lengthOf {
+    @leftPad('0')
+    @lengthOf(float)
+    @tag(00)
+    // `tick` ""quote"" 'q'
+    repeat f32 metadata ``,
+    @lengthOf(As)
+    // a // b
+    float32 msg_type `line1
+    line2`,
+    @lengthOf(repeatCount)
+    @lengthOf(Logon)
+    char[4294967296] BodyLength,
+}
+
+packet packetx {
+    @leftPad()
+    Logon `u8 x,`,
+    match matchKey as MetaDataX {
+        1 : _x,
+        """ ++ [128512]%N ++ runes_of_ascii """ : f32a,
+        00 : x,
+    },
+    @calculatedFrom(""a	b"")
+    repeat x_y_z x_y_z,
+    zchar[007] calculatedFrom `100% of %d`,
+    packetx @lengthOf(msg_type) `a\`,
+    char[007] x_y_z `it's`,
+}")).
+Eval vm_compute in ("<<<M397>>>" ++ check (runes_of_ascii "
+options
+{ lengthOf = zchar[65535 ] ;len
+= char[] ; packetx =  false
+    ;len = """ ++ [128512]%N ++ runes_of_ascii """}MetaData i8i8 { uint16 x
+    // c
+    `
+` ,}
+// a // b
+/// triple
+root
+    packet // `tick` ""quote"" 'q'
+_x { repeat char[] // a // b
+Pad, @calculatedFrom(
+""abc"" )
+char[ 42
+]Pad ,
+@leftPad
+( )
+char[]  Pad , zchar[1 ] BodyLength
+`{ , }` , }MetaData
+Foo { x a1, float
+charz ,	} root
+packet lengthOf { @leftPad(
+    // `tick` ""quote"" 'q'
+    ' '
+)	x_y_z`say ""hi""` ,
+    f64 packetx , @calculatedFrom( ""a	b""
+    )string_ { // " ++ [128512]%N ++ runes_of_ascii " emoji
+o
+@lengthOf( body )	, i8i8	charz	, u32 _x, // trailing space 
+char[ 7	] metadata // c
+, } ,asx
+    { match body as
+    // packet A { u8 x, }
+    float
+{[ 7, ""packet"" ,
+    ""a\""b"" ]:
+    // 50% %s
+    metadata, 0123456789 :
+    repeatCount 3 :	crc }	,} ,	@tag(0) @leftPad
+( '0' ) @calculatedFrom( ""{,}"" ) repeat char[]
+    metadata// `tick` ""quote"" 'q'
+, i16 metadata
+@calculatedFrom( """ ++ [233]%N ++ runes_of_ascii "t" ++ [233]%N ++ runes_of_ascii """) ,
+int16 tag
+    ,metadata
+,	}")).
+Eval vm_compute in ("<<<M4148>>>" ++ check (runes_of_ascii "options {
+    LittleEndian = false;
+    StringPrefixLenType = u16;
+    ArrayPrefixLenType = u8;
+    FixedStringPadFromLeft = true;
+    FixedStringPadChar = ' ';
+}
+
+packet Logon {
+}
+
+packet Reject {
+    InPx48 {
+        repeat string price,
+        u32 msgKind,
+        repeat InSide223 {
+            Logon,
+            repeat f64 Ref,
+            string tag7,
+        },
+        InClordid8 {
+            zchar[5] Qty,
+            u64 x,
+            repeat string lastPx,
+        },
+    },
+    Logon,
+    i16 lastPx,
+    repeat char[5] clOrdID,
+    zchar[2] Flags,
+    repeat string Side2,
+}
+
+root packet Order {
+    uint16 sym,
+    zchar[8] Side2,
+    repeat string clOrdID,
+    string tag7,
+    zchar[3] OrderId,
+    zchar[4] seqNo,
+    u32 f1,
+    u32 Acct @lengthOf(Body),
+    match f1 as Body {
+        58 : Reject,
+        180 : Logon,
+    },
+    u32 Px @calculatedFrom(""CR\
+    C32""),
+}")).
+Eval vm_compute in ("<<<M43>>>" ++ check (runes_of_ascii "packet Header{ @lengthOf( matchKey
+) @lengthOf(metadata ) @tag(4294967296
+    )match f32a as chars {""" ++ [128512]%N ++ runes_of_ascii """  : int , } , match // @lengthOf(
+roots as Packet	{ 255 : x_y_z,}
+    ,  char[] trueish @lengthOf(
+    i64_) `line1
+line2`
+, match
+    f32a as
+x_y_z {
+    255: a1
+    7	: string_
+// @lengthOf(
+// packet A { u8 x, }
+,} , Pad
+    @calculatedFrom( """ ++ [128512]%N ++ runes_of_ascii """
+) , char[
+    65535 ]pack ,
+    @lengthOf( x  )// " ++ [27880; 37322]%N ++ runes_of_ascii "
+match metadata // " ++ [128512]%N ++ runes_of_ascii " emoji
+as metadata {
+42
+: rootA 65535: packetx , [ 7 ] :zchar , [  ""it's"", ""\n""	, 42 ] :
+Logon// a // b
+,
+65535
+    : body ,// trailing space 
+} ,	@tag( 00 ) @rightPad  ( '\x00' )float
+    `two words` , tag { match
+calculatedFrom as rootA
+{	[ ""1"" , ""CRC32"" ,
+1 , 00
+]:
+_x
+    ,	1 : Z9_
+,
+    """" : x , } ,},@calculatedFrom(""" ++ [128512]%N ++ runes_of_ascii """) @lengthOf(
+lengthOf
+// trailing space 
+// packet A { u8 x, }
+) @calculatedFrom( """") repeat
+int16 x, }
+")).
+Eval vm_compute in ("<<<M3953>>>" ++ check (runes_of_ascii "root packet chars {
+    match i64_ as MetaDataX {
+        007 : float,
+        // trailing space 
+        ""a\\"" : leftPad,
+        [255, ""x y"", 4294967296, 0, 3] : Packet,
+        [""" ++ [128512]%N ++ runes_of_ascii """] : body,
+        """ ++ [28040; 24687]%N ++ runes_of_ascii """ : Z9_,
+    },
+    @calculatedFrom(""abc"")
+    @rightPad('0')
+    match Z9_ as u128 {
+        255 : Header,
+    },
+    repeat zchar[255] leftPad,
+    @tag(255)
+    u8 zchar `a\`,
+}
+
+packet As {
+    @tag(00)
+    MetaDataX BodyLength,
+    i64 trueish,
+    repeat o {
+        i8 options1 @lengthOf(BodyLength),
+    },
+    @lengthOf(Z9_)
+    @rightPad()
+    @calculatedFrom(""packet"")
+    float @lengthOf(x) `line1
+        line2`,
+}
+
+/// triple
+root packet T {
+    crc `" ++ [233]%N ++ runes_of_ascii "`,
+    match options1 as x {
+        7 : int,
+        """" : calculatedFrom,
+        [""it's""] : packetx,
+        7 : u128,
+    },
+    repeat crc,
+}")).
+Eval vm_compute in ("<<<M1385>>>" ++ check (runes_of_ascii "
+root packet metadata	{ i32 lengthOf @calculatedFrom(
+// c
+//x
+""1"" )`line1
+line2` , repeat
+calculatedFrom
+int , repeat u rootA ,// c
+@tag( 0 ) // trailing space 
+repeat
+    matchKey
+    `say ""hi""`
+, // c
+}	packet metadata {  MetaDataX {f64 stringy
+@lengthOf( metadata ) `it's`	,
+    //x
+    char[  0123456789] repeatCount@calculatedFrom( ""`tick`""
+    //x
+    ) , repeat zchar[
+0 ] x_y_z`say ""hi""` , char
+i64_, }
+, repeat char[
+    // c
+    10 ]  trueish,	match roots as charz
+{ """ ++ [28040; 24687]%N ++ runes_of_ascii """ :
+i8i8  , [
+4294967296,
+    // 50% %s
+    00 ,
+255 ,""\n"" , ""x y"" , 10 , 0]  : trueish [ ""\" ++ [233]%N ++ runes_of_ascii """ , 7	] // trailing space 
+:
+i64_
+    // c
+    ,
+// packet A { u8 x, }
+// " ++ [27880; 37322]%N ++ runes_of_ascii "
+[ ""\n"" ] :body ,	[ """" ] // @lengthOf(
+: asx // 50% %s
+, [7 ,1
+]	: Z9_
+,
+} ,
+    repeat int16 stringy // `tick` ""quote"" 'q'
+,}
+")).
+Eval vm_compute in ("<<<M540>>>" ++ check (runes_of_ascii "packet i64_ {}packet o {As
+//	t
+// " ++ [27880; 37322]%N ++ runes_of_ascii "
+leftPad `crlf
+line`
+    // c
+    ,@calculatedFrom(
+// `tick` ""quote"" 'q'
+// a // b
+""" ++ [233]%N ++ runes_of_ascii "t" ++ [233]%N ++ runes_of_ascii """) i32 //	t
+float`` ,
+falsey
+    { match rootA as roots { ""a\""b"": body
+    ,
+1 :trueish// " ++ [27880; 37322]%N ++ runes_of_ascii "
+, ""\" ++ [233]%N ++ runes_of_ascii """ : a1  , }
+    ,
+f32 options1 , char[
+    3 ]
+falsey	`line1
+line2` ,} ,
+string matchKey `u8 x,` , @calculatedFrom( """ ++ [233]%N ++ runes_of_ascii "t" ++ [233]%N ++ runes_of_ascii """
+    ) uint8x @calculatedFrom( ""{,}""
+),
+    zchar[0123456789 ] pack //	t
+,lengthOf @lengthOf(	chars )  ,//x
+@calculatedFrom( """"
+    )
+packetx
+`" ++ [233]%N ++ runes_of_ascii "` // " ++ [128512]%N ++ runes_of_ascii " emoji
+,
+    @tag( 3
+    ) match MetaDataX as
+uint8x { 007
+    : body , }	, } options
+{
+// `tick` ""quote"" 'q'
+// " ++ [27880; 37322]%N ++ runes_of_ascii "
+BodyLength = """ ++ [28040; 24687]%N ++ runes_of_ascii """	; float = 10
+;
+// " ++ [128512]%N ++ runes_of_ascii " emoji
+// trailing space 
+string_= '0'packetx = '0' ; // a // b
+repeatCount = i64 } 	 ")).
+Eval vm_compute in ("<<<M934>>>" ++ check (runes_of_ascii "packet //x
+matchKey {@lengthOf( u8x
+    )
+// 50% %s
+//
+packetx
+@calculatedFrom( ""1"")
+,
+    repeat string	MetaDataX ,
+} root
+packet
+    Foo{ @lengthOf( As ) x charz
+    ,
+    } packet a1
+//x
+// packet A { u8 x, }
+{ match Packet// 50% %s
+as Packet
+    {""it's"" : zchar ,
+    }
+    , @tag( 255
+)@calculatedFrom(
+""packet"" )u32 repeatCount
+    // trailing space 
+    ,string stringy `it's` , f64 a1
+``
+    ,
+//	t
+// " ++ [27880; 37322]%N ++ runes_of_ascii "
+i64
+trueish,
+repeat float
+{ int32 charz
+    @lengthOf( falsey// `tick` ""quote"" 'q'
+) `100% of %d` , } ,repeat
+f64 // " ++ [128512]%N ++ runes_of_ascii " emoji
+x
+, uint32 body , } root
+packet rootA { match //	t
+Z9_
+    as
+    rootA {
+    ""{,}"" : As """ ++ [233]%N ++ runes_of_ascii "t" ++ [233]%N ++ runes_of_ascii """ : i64_ 1:
+    charz ""\" ++ [233]%N ++ runes_of_ascii """
+    : pack, // trailing space 
+},}
+")).
+Eval vm_compute in ("<<<M529>>>" ++ check (runes_of_ascii "packet f32a { @tag(
+// c
+// " ++ [27880; 37322]%N ++ runes_of_ascii "
+4294967296)charz
+matchKey ,
+    @calculatedFrom(
+""packet"")
+repeatCount
+@lengthOf( len )	,
+uint32 stringy
+    // 50% %s
+    `
+`// `tick` ""quote"" 'q'
+,Foo@lengthOf(string_ ) , repeat
+char[ 007]	Logon//	t
+`// not a comment` ,
+zchar[  00 ]len // trailing space 
+@calculatedFrom( ""1"" )
+,match  len as falsey
+    { ""{,}""//
+:
+    //
+    o } ,match body as
+    Z9_
+{
+    7:
+// c
+// @lengthOf(
+BodyLength ,255 :
+_x// a // b
+}
+,
+    @leftPad
+( '\x00' ) match // c
+f32a as f32a {
+[ 10 // " ++ [128512]%N ++ runes_of_ascii " emoji
+,  0123456789 ]:a1,}
+    // " ++ [128512]%N ++ runes_of_ascii " emoji
+    ,@calculatedFrom(""" ++ [28040; 24687]%N ++ runes_of_ascii """
+) @calculatedFrom( ""abc"" ) int8 // " ++ [128512]%N ++ runes_of_ascii " emoji
+_x
+    // `tick` ""quote"" 'q'
+    `say ""hi""` , }
+")).
+Eval vm_compute in ("<<<M1244>>>" ++ check (runes_of_ascii "packet
+    zchar
+{ Z9_	, Header @calculatedFrom(""CRC32"" ) // " ++ [27880; 37322]%N ++ runes_of_ascii "
+`say ""hi""`
+,repeat string// " ++ [128512]%N ++ runes_of_ascii " emoji
+crc
+//x
+// trailing space 
+, As	@lengthOf(
+    calculatedFrom
+)`{ , }` , @rightPad (
+)
+    @rightPad (// " ++ [27880; 37322]%N ++ runes_of_ascii "
+'\x00' )@lengthOf( repeatCount)  char[]
+    body @lengthOf( o )`100% of %d`	, @leftPad( )
+uint8 Logon // " ++ [128512]%N ++ runes_of_ascii " emoji
+,
+    //
+    match
+x_y_z as stringy {42: metadata }
+,
+    // trailing space 
+    string
+Z9_, @tag(
+7
+    ) @rightPad  (	)
+    @tag(4294967296
+    ) char[ 1
+//x
+// " ++ [128512]%N ++ runes_of_ascii " emoji
+]
+BodyLength `a\` ,
+    // trailing space 
+    repeatCount ,} packet
+uint8x { @lengthOf(//
+Header ) string_`" ++ [233]%N ++ runes_of_ascii "`
+, }
+    packet x_y_z { }
+options {}
+
+")).
+Eval vm_compute in ("<<<M1099>>>" ++ check (runes_of_ascii "options{ leftPad =""\n"" ; u = uint8; } MetaData msg_type
+{ } MetaData
+Header
+{	zchar[65535 ] // trailing space 
+chars `100% of %d`//x
+,options1 T
+    , }	packet charz	{
+    match
+    falsey as matchKey {
+    """"	:Logon ,
+""`tick`""
+:
+    a1
+, ""1"" : stringy
+    ,
+""// no comment"" : Z9_ ,
+    00:
+crc
+    , 7
+    : packetx , } ,
+    repeat
+u32
+metadata ,
+    char[
+007 ] u  `a\` , @calculatedFrom(""it's"" ) @lengthOf( charz ) match leftPad as
+// " ++ [27880; 37322]%N ++ runes_of_ascii "
+/// triple
+int{00
+: x , }
+, // c
+@tag( //x
+10)match u128 as Logon
+{
+00: tag ,  } , match x	as
+MetaDataX { [ 1 ]
+:body}
+    , } packet BodyLength
+// " ++ [128512]%N ++ runes_of_ascii " emoji
+// c
+{}")).
+Eval vm_compute in ("<<<M606>>>" ++ check (runes_of_ascii "
+packet float {roots `100% of %d` ,BodyLength
+// `tick` ""quote"" 'q'
+// `tick` ""quote"" 'q'
+{ match repeatCount
+as tag
+    {
+"""" : pack[ 0123456789 ,
+    42 , ""a\\"" ] : matchKey
+// c
+// packet A { u8 x, }
+,7	:
+len ,	"""" : i8i8 , } , }
+    , int16
+    float , i16 Packet @calculatedFrom( //
+""// no comment"" ) // trailing space 
+`a\` ,
+@lengthOf( rootA ) trueish, /// triple
+@rightPad( '0'
+) roots	msg_type, match Header as
+Packet {
+[ ""a\\"" ,
+    ""CRC32"", ""x y""
+    ]: Header
+,} ,zchar[ 3
+//
+/// triple
+] u	,
+    // c
+    @tag( 3 )zchar[ 0123456789 ] float
+    @calculatedFrom( ""\" ++ [233]%N ++ runes_of_ascii """ ),	}")).
+Eval vm_compute in ("<<<M4113>>>" ++ check (runes_of_ascii "// " ++ [27880; 37322]%N ++ runes_of_ascii "
+MetaData x_y_z {
+    zchar[65535] len `// not a comment`,
+    u16 zchar `
+        `,
+}
+
+packet matchKey {
+}
+
+packet int {
+    @leftPad('0')
+    f32a,
+    @calculatedFrom(""abc"")
+    match len as BodyLength {
+        7 : Logon,
+        10 : x,
+        //	t
+    },
+    @calculatedFrom(""{,}"")
+    match chars as Packet {
+        //
+        // c
+        0123456789 : Pad,
+        0123456789 : falsey,
+        [4294967296, 3, 4294967296, 0, ""1""] : roots,
+        ""a\\"" : _x,
+        3 : packetx,
+    },
+    string u128 @lengthOf(roots),
+}
+// packet A { u8 x, }")).
+Eval vm_compute in ("<<<M3955>>>" ++ check (runes_of_ascii "packet tag {
+    @rightPad()
+    repeat options1 T `a\`,
+    @calculatedFrom(""it's"")
+    /// triple
+    float64 float `100% of %d`,
+    @rightPad('0')
+    Foo repeatCount,// a // b
+    repeat float pack `line1
+        line2`,// a // b
+    @leftPad()
+    match Foo as MetaDataX {
+        // " ++ [128512]%N ++ runes_of_ascii " emoji
+        """ ++ [233]%N ++ runes_of_ascii "t" ++ [233]%N ++ runes_of_ascii """ : f32a,
+        00 : roots,
+        [""a\\""] : BodyLength,
+    },
+    int16 body,/// triple
+    match roots as Z9_ {
+        65535 : tag,
+        [""it's"", 255] : Foo,
+    },// @lengthOf(
+    leftPad `{ , }`,
+    f64 chars `a\`,
+}")).
+Eval vm_compute in ("<<<M318>>>" ++ check (runes_of_ascii "MetaData packetx{char[] // " ++ [128512]%N ++ runes_of_ascii " emoji
+Header ,
+} packet Foo{ u32
+charz/// triple
+,
+string trueish , @leftPad
+// 50% %s
+// trailing space 
+(' ' // a // b
+)
+i8i8 {
+    float64 T
+@lengthOf(leftPad ) ,// c
+u128 `two words`,
+    zchar[ 007]metadata	`two words`	, repeat
+BodyLength  MetaDataX `line1
+line2`
+,
+    } , chars
+@calculatedFrom( ""{,}"" )  `100% of %d`,  }
+packet	T// 50% %s
+{ f32a , @tag( 0
+) @calculatedFrom(""\n"")rootA	_x  `{ , }` , @leftPad ( )
+    u8 int
+    ,
+    crc@lengthOf(Logon )	`tab	here`  ,
+// c
+// " ++ [128512]%N ++ runes_of_ascii " emoji
+}
+")).
+Eval vm_compute in ("<<<M88>>>" ++ check (runes_of_ascii "MetaData T{
+    // trailing space 
+    } packet
+a1 {char[ 007 ]
+int // 50% %s
+`say ""hi""`
+    , @leftPad (	)
+@rightPad( ' ' ) match matchKey
+    as // trailing space 
+Foo	{ [
+10 ,255 , """" , 0 ,
+42 , ""1"", 10 ]  :packetx ,
+[ 0 , 0123456789 , ""it's""
+,  4294967296	,
+3
+, ""CRC32"" , 4294967296] // " ++ [128512]%N ++ runes_of_ascii " emoji
+: repeatCount
+    , 0123456789: Header , 10
+    :
+    roots,
+} ,
+@lengthOf(
+tag ) char[ 0// 50% %s
+] i64_
+    @calculatedFrom( ""1"" )  , @lengthOf(  i8i8 ) u64
+    o // " ++ [27880; 37322]%N ++ runes_of_ascii "
+`crlf
+line` ,
+}
+")).
+Eval vm_compute in ("<<<M490>>>" ++ check (runes_of_ascii "MetaData	uint8x {uint8 //
+u ,
+int16
+packetx	, char[ // trailing space 
+7 ]	metadata
+`line1
+line2`,
+    char[]i8i8  `crlf
+line`
+    ,
+    }packet u // c
+{ string x_y_z , repeat
+Foo
+    // trailing space 
+    asx // packet A { u8 x, }
+, trueish { u@lengthOf( calculatedFrom
+    //
+    )
+    ,
+    i8i8 {repeat
+    char[ 65535 // @lengthOf(
+] Logon ,  }
+,char[]o , f64 repeatCount `
+` ,	} , packetx
+    u128 ,}options// c
+{
+roots //	t
+= false;
+    trueish=	char[ 1 ];}
+")).
+Eval vm_compute in ("<<<M3774>>>" ++ check (runes_of_ascii "
+root	packet  metadata { @leftPad
+	(	'0' )
+@calculatedFrom(""packet"" ) match	Logon
+
+    as  Header 
+    // " ++ [128512]%N ++ runes_of_ascii " emoji
+  { 3
+:	body
+1 
+:
+
+    f32a 00 :
+    o
+,""a\""b""
+:
+
+    o
+,""packet""
+	:
+asx  ,
+
+}
+    ,
+//x
+// " ++ [27880; 37322]%N ++ runes_of_ascii "
+  @tag(0123456789
+)
+    f64 
+msg_type ,  @leftPad
+	(	// packet A { u8 x, }
+  ' '	) string
+	msg_type @calculatedFrom(
+
+    ""CRC32""  ) 
+
+    // @lengthOf(
+,  } options 
+{_x
+
+=
+
+""1""
+
+    ;
+Header  =
+f64
+
+; 
+}packet 
+lengthOf{ }
+")).
+Eval vm_compute in ("<<<M1022>>>" ++ check (runes_of_ascii "
+options {Pad
+    = true; // " ++ [27880; 37322]%N ++ runes_of_ascii "
+}
+root packet u128 {
+    repeat zchar[
+0123456789 ] x
+,
+@calculatedFrom(
+""" ++ [28040; 24687]%N ++ runes_of_ascii """) @tag(7 ) i32	Logon
+    // a // b
+    , matchKey u128`100% of %d`,
+repeat
+    lengthOf	As  `100% of %d` ,
+match  x_y_z
+as As {""x y"" :stringy , """ ++ [233]%N ++ runes_of_ascii "t" ++ [233]%N ++ runes_of_ascii """  :
+    //
+    Logon  , [65535 , 007 ] :
+    Pad
+    , } , f32 leftPad  ,
+    // trailing space 
+    @rightPad
+// " ++ [128512]%N ++ runes_of_ascii " emoji
+//x
+( ) char[] uint8x
+@lengthOf(
+Foo) `it's` , } 	 ")).
+Eval vm_compute in ("<<<M4322>>>" ++ check (runes_of_ascii "
+packet
+    Logon {	}options{ } root
+    packet 
+u128{
+
+    @calculatedFrom( 
+""" ++ [128512]%N ++ runes_of_ascii """
+
+    ) 
+float64 options1
+    ,
+
+    zchar[
+007] matchKey  @lengthOf(
+A  // " ++ [128512]%N ++ runes_of_ascii " emoji
+)
+,
+    T
+	//	t
+    /// triple
+  calculatedFrom	// trailing space 
+      ,	@lengthOf(  stringy )
+repeat
+    Z9_
+	{
+u64	repeatCount, 
+// @lengthOf(
+  MetaDataX
+	`two words`  , matchKey  ,
+
+    }
+	, 
+}
+MetaData
+
+    crc{ Pad
+
+MetaDataX ,
+} ")).
+Eval vm_compute in ("<<<M3523>>>" ++ check (runes_of_ascii "packet Frame {
+    u8 HK,
+    u8 BK,
+    u8 TK,
+    match HK as Hdr {
+        1 : HdrA,
+        2 : HdrB,
+    },
+    match BK as Body {
+        1 : BodyA,
+        2 : BodyB,
+    },
+    match TK as Trl {
+        1 : TrlA,
+    },
+}
+packet HdrA {
+    u8 a,
+}
+packet HdrB {
+    u16 b,
+}
+packet BodyA {
+    u32 c,
+}
+packet BodyB {
+    u64 d,
+}
+packet TrlA {
+    u8 e,
+}
+root packet Msg {
+    Frame,
+    u8 x,
+}
+")).
+Eval vm_compute in ("<<<M1376>>>" ++ check (runes_of_ascii "/// triple
+root packet
+string_
+    { @calculatedFrom(  """ ++ [233]%N ++ runes_of_ascii "t" ++ [233]%N ++ runes_of_ascii """ ) char[] trueish `two words`,
+match int
+as // packet A { u8 x, }
+o{ ""`tick`"" :	A,  [ """ ++ [128512]%N ++ runes_of_ascii """	, 42 , ""it's"" , ""{,}"" , // c
+""" ++ [233]%N ++ runes_of_ascii "t" ++ [233]%N ++ runes_of_ascii """ ,
+    ""it's""
+,  7
+    , 007 ] : u 007
+    :matchKey ,}
+    , @lengthOf( rootA ) @calculatedFrom( //
+""a	b""
+    ) @rightPad
+( ) match
+options1
+as Foo
+{ 007 : u128,  [ 10
+,
+    """ ++ [28040; 24687]%N ++ runes_of_ascii """
+] : string_, } , }
+")).
+Eval vm_compute in ("<<<M4143>>>" ++ check (runes_of_ascii "MetaData 
+MetaDataX{ uint16 stringy  ,  Pad
+    Pad
+    ,	MetaDataX falsey
+
+`say ""hi""`
+
+    ,
+	falsey
+
+Z9_
+`say ""hi""`
+,
+string
+	    /// triple
+// 50% %s
+  Header,  int8
+    stringy
+
+    ,
+}	root
+
+packet
+    calculatedFrom
+
+    { 
+
+    //
+    // `tick` ""quote"" 'q'
+
+	}
+
+packet
+int	{ char[]
+
+    A,zchar[
+0 
+    // 50% %s
+    	/// triple
+
+] leftPad
+	`{ , }`
+	,}
+")).
+Eval vm_compute in ("<<<M94>>>" ++ check (runes_of_ascii "packet
+trueish { //x
+char // " ++ [128512]%N ++ runes_of_ascii " emoji
+msg_type`// not a comment` , repeat  char[] o, @calculatedFrom( ""x y"" )
+    u64
+    int@calculatedFrom( ""1"" )
+    , } options{ Foo //x
+=
+""it's"" lengthOf = int8 falsey = 7
+; //	t
+a1 =
+false // " ++ [128512]%N ++ runes_of_ascii " emoji
+;
+}MetaData
+repeatCount { T repeatCount ,	u8x msg_type `100% of %d` // `tick` ""quote"" 'q'
+,
+    repeatCount T ,}
+")).
+Eval vm_compute in ("<<<M1245>>>" ++ check (runes_of_ascii "packet charz
+// " ++ [128512]%N ++ runes_of_ascii " emoji
+// packet A { u8 x, }
+{
+char[ 007
+] pack
+    @calculatedFrom(""// no comment""
+// " ++ [128512]%N ++ runes_of_ascii " emoji
+// c
+)  ,u128
+, @tag( // " ++ [27880; 37322]%N ++ runes_of_ascii "
+1 )
+    @leftPad ()match zchar// trailing space 
+as string_	{ [ 65535 , 00
+// " ++ [27880; 37322]%N ++ runes_of_ascii "
+// trailing space 
+, 4294967296 //
+,
+255 ,
+007 ]
+: //x
+Pad // packet A { u8 x, }
+3  : MetaDataX } ,
+metadata string_ ,
+}
+")).
+Eval vm_compute in ("<<<M717>>>" ++ check (runes_of_ascii "
+options
+{ pack
+    = true } //	t
+packet	lengthOf{ int8  u `" ++ [28040; 24687; 31867; 22411]%N ++ runes_of_ascii "` ,
+u @lengthOf( stringy	)
+// a // b
+// packet A { u8 x, }
+,@lengthOf( roots
+)
+    @leftPad ('\x00'  ) @calculatedFrom( ""a\\"" )repeat uint16 A `{ , }` , }packet u
+{ // c
+uint32/// triple
+pack @lengthOf(Pad )
+    /// triple
+    ``	,lengthOf u// packet A { u8 x, }
+, }")).
+Eval vm_compute in ("<<<M4012>>>" ++ check (runes_of_ascii "packet Pad {
+    // @lengthOf(
+    /// triple
+    @tag(1)
+    @leftPad('0')
+    repeat zchar[10] Packet,
+    uint32 BodyLength `100% of %d`,
+    repeat char[10] Z9_,
+    @leftPad('0')
+    repeat Foo a1,
+    char[42] repeatCount `line1
+        line2`,
+    @rightPad()
+    char[] crc,
+    pack @calculatedFrom(""\" ++ [233]%N ++ runes_of_ascii """),
+}")).
+Eval vm_compute in ("<<<M607>>>" ++ check (runes_of_ascii "packet leftPad{
+@lengthOf( metadata) @lengthOf( int )	@lengthOf( As ) uint32 zchar @lengthOf( Packet),char[ 255] asx `100% of %d` ,i16 metadata `it's`	, @lengthOf(
+// trailing space 
+//	t
+x
+)
+    @calculatedFrom(
+    ""1"") @tag(42
+    //x
+    )
+repeat
+    i8 float
+, @calculatedFrom( ""`tick`"") roots , }")).
+Eval vm_compute in ("<<<M4306>>>" ++ check (runes_of_ascii "options {
+    // c1
+    u = 00
+    // c4
+    stringy = '0'// c7
+}// c8a
+
+// c8b
+packet stringy {
+    // c11a
+    // c11b
+}
+
+// c12
+MetaData repeatCount {
+    // c15
+    MetaDataX leftPad,// c18a
+    // c18b
+    string body `
+    `,
+    // c22
+    metadata options1,
+    // c25
+}// c26a
+// c26b")).
+Eval vm_compute in ("<<<M2014>>>" ++ check (runes_of_ascii "packet	packetx { // trailing space 
+x_y_z
+{
+string
+charz ,
+string x// @lengthOf(
+`two words`
+    ,  u8x { // `tick` ""quote"" 'q'
+charz `100% of %d` // packet A { u8 x, }
+,}// " ++ [27880; 37322]%N ++ runes_of_ascii "
+,} , }
+    // a // b
+    packet metadata {  @leftPad ( '0') repeat i32 options1 ,`two words` uint8x , }
+")).
+Eval vm_compute in ("<<<M2012>>>" ++ check (runes_of_ascii "packet	packetx { // trailing space 
+x_y_z
+{
+string
+charz ,
+string x// @lengthOf(
+`two words`
+    ,  u8x { // `tick` ""quote"" 'q'
+charz `100% of %d` // packet A { u8 x, }
+,}// " ++ [27880; 37322]%N ++ runes_of_ascii "
+,} , }
+    // a // b
+    packet metadata {  @leftPad ( '0') repeat i32 options1 ,u64 u64 uint8x , }
+")).
+Eval vm_compute in ("<<<M2022>>>" ++ check (runes_of_ascii "packet	packetx { // trailing space 
+x_y_z
+{
+string
+charz ,
+string x// @lengthOf(
+`two words`
+    ,  u8x { // `tick` ""quote"" 'q'
+charz `100% of %d` // packet A { u8 x, }
+,}// " ++ [27880; 37322]%N ++ runes_of_ascii "
+,} , }
+    // a // b
+    packet metadata {  @leftPad ( '0') repeat i32 options1 ,u64 uint8x , , }
+")).
+Eval vm_compute in ("<<<M1923>>>" ++ check (runes_of_ascii "packet	packetx { // trailing space 
+x_y_z
+{
+string
+charz ,
+string x// @lengthOf(
+`two words`
+    ,  u8x { // `tick` ""quote"" 'q'
+charz , // packet A { u8 x, }
+`100% of %d`}// " ++ [27880; 37322]%N ++ runes_of_ascii "
+,} , }
+    // a // b
+    packet metadata {  @leftPad ( '0') repeat i32 options1 ,u64 uint8x , }
+")).
+Eval vm_compute in ("<<<M1911>>>" ++ check (runes_of_ascii "packet	packetx { // trailing space 
+x_y_z
+{
+string
+charz ,
+string x// @lengthOf(
+`two words`
+    ,  u8x  // `tick` ""quote"" 'q'
+charz `100% of %d` // packet A { u8 x, }
+,}// " ++ [27880; 37322]%N ++ runes_of_ascii "
+,} , }
+    // a // b
+    packet metadata {  @leftPad ( '0') repeat i32 options1 ,u64 uint8x , }
+")).
+Eval vm_compute in ("<<<M2048>>>" ++ check (runes_of_ascii "packet	packetx { // trailing space 
+x_y_z
+{
+string
+x" ++ [178]%N ++ runes_of_ascii " ,
+string x// @lengthOf(
+`two words`
+    ,  u8x { // `tick` ""quote"" 'q'
+charz `100% of %d` // packet A { u8 x, }
+,}// " ++ [27880; 37322]%N ++ runes_of_ascii "
+,} , }
+    // a // b
+    packet metadata {  @leftPad ( '0') repeat i32 options1 ,u64 uint8x , }
+")).
+Eval vm_compute in ("<<<M2155>>>" ++ check (runes_of_ascii "packet// packet A { u8 x, }
+repeatCount	{// packet A { u8 x, }
+@leftPad ( '\x00'
+) repeat u8x MetaDataX `crlf
+line`,
+    repeat
+    char[] MetaDataX
+    ,
+u64	uint8x@calculatedFrom(""a\""b""
+// c
+// packet A { u8 x, }
+) `tab	here` `tab	here`
+,//
+}MetaData pack
+    {
+    }
+")).
+Eval vm_compute in ("<<<M4407>>>" ++ check (runes_of_ascii "root packet _x {
+    zchar[65535] x @lengthOf(uint8x) `" ++ [28040; 24687; 31867; 22411]%N ++ runes_of_ascii "`,
+    @leftPad('\x00')
+    match float as stringy {
+        ""// no comment"" : int,
+        7 : x_y_z,
+        ""`tick`"" : lengthOf,
+    },
+    @lengthOf(f32a)
+    repeat BodyLength Header,
+    u Foo `it's`,
+}")).
+Eval vm_compute in ("<<<M2132>>>" ++ check (runes_of_ascii "packet// packet A { u8 x, }
+repeatCount	{// packet A { u8 x, }
+@leftPad ( '\x00'
+) repeat u8x MetaDataX `crlf
+line`,
+    repeat
+    char[] MetaDataX
+    ,
+packet	uint8x@calculatedFrom(""a\""b""
+// c
+// packet A { u8 x, }
+) `tab	here`
+,//
+}MetaData pack
+    {
+    }
+")).
+Eval vm_compute in ("<<<M2202>>>" ++ check (runes_of_ascii "packet// packet A { u8 x, }
+repeatCou""nt	{// packet A { u8 x, }
+@leftPad ( '\x00'
+) repeat u8x MetaDataX `crlf
+line`,
+    repeat
+    char[] MetaDataX
+    ,
+u64	uint8x@calculatedFrom(""a\""b""
+// c
+// packet A { u8 x, }
+) `tab	here`
+,//
+}MetaData pack
+    {
+    }
+")).
+Eval vm_compute in ("<<<M2122>>>" ++ check (runes_of_ascii "packet// packet A { u8 x, }
+repeatCount	{// packet A { u8 x, }
+@leftPad ( '\x00'
+) repeat u8x MetaDataX `crlf
+line`,
+    repeat
+    char[] @rightPad
+    ,
+u64	uint8x@calculatedFrom(""a\""b""
+// c
+// packet A { u8 x, }
+) `tab	here`
+,//
+}MetaData pack
+    {
+    }
+")).
+Eval vm_compute in ("<<<M300>>>" ++ check (runes_of_ascii "// a // b
+options{
+    } packet Foo { char[  7 ] int // `tick` ""quote"" 'q'
+@calculatedFrom(
+""it's"" ) ,  @calculatedFrom( ""1""
+) repeat i16
+// @lengthOf(
+// a // b
+msg_type
+    , repeat msg_type zchar
+`two words` ,
+    } MetaData i64_ { f32a Logon `u8 x,`
+, }")).
+Eval vm_compute in ("<<<M2144>>>" ++ check (runes_of_ascii "packet// packet A { u8 x, }
+repeatCount	{// packet A { u8 x, }
+@leftPad ( '\x00'
+) repeat u8x MetaDataX `crlf
+line`,
+    repeat
+    char[] MetaDataX
+    ,
+u64	uint8x@calculatedFrom(
+// c
+// packet A { u8 x, }
+) `tab	here`
+,//
+}MetaData pack
+    {
+    }
+")).
+Eval vm_compute in ("<<<M1566>>>" ++ check (runes_of_ascii "packet calculatedFrom
+{ @calculatedFrom( ""a\\"" ) zchar[ 4294967296 ]
+calculatedFrom@lengthOf( pack )	`100% of %d` ,char[]body@calculatedFrom( ""// no comment"" )  ,
+@tag( 007) //x
+int8
+leftPad`it's` , repeat pack
+    false repeat char[ 3] body
+,},
+}")).
+Eval vm_compute in ("<<<M1604>>>" ++ check (runes_of_ascii "packet calculatedFrom
+{ @calculatedFrom( ""a\\"" ) zchar[ 4294967296 ]
+calculatedFrom@lengthOf( pack )	`100% of %d` ,char[]body@calculatedFrom( ""// no comment"" )  ,
+@tag( 007) //x
+int8
+leftPad`it's` , repeat pack
+    { repeat char[ 3] body
+,}, ,
+}")).
+Eval vm_compute in ("<<<M4362>>>" ++ check (runes_of_ascii "options {
+    x = uint32;
+    _x = true;
+    matchKey = ""`tick`"";
+    // trailing space 
+    //	t
+    tag = '0';
+    packetx = char[3]
+}
+
+options {
+}
+
+//x
+packet rootA {
+    roots,
+    @lengthOf(falsey)
+    @lengthOf(u128)
+    zchar[255] stringy,
+}")).
+Eval vm_compute in ("<<<M1560>>>" ++ check (runes_of_ascii "packet calculatedFrom
+{ @calculatedFrom( ""a\\"" ) zchar[ 4294967296 ]
+calculatedFrom@lengthOf( pack )	`100% of %d` ,char[]body@calculatedFrom( ""// no comment"" )  ,
+@tag( 007) //x
+int8
+leftPad`it's` , repeat {
+    pack repeat char[ 3] body
+,},
+}")).
+Eval vm_compute in ("<<<M4235>>>" ++ check (runes_of_ascii "MetaData zchar {
+    falsey u8x,// @lengthOf(
+    i8 u128,
+    u i8i8 `
+    `,
+    i8 asx `{ , }`,
+}
+
+options {
+    lengthOf = i8
+}
+
+packet msg_type {
+    match u8x as MetaDataX {
+        //
+        /// triple
+        1 : tag,
+        //
     },
 }")).
-Eval vm_compute in ("<<<M1907>>>" ++ check (runes_of_ascii "
-packet
-A
-    { match  k
-as
+Eval vm_compute in ("<<<M1571>>>" ++ check (runes_of_ascii "packet calculatedFrom
+{ @calculatedFrom( ""a\\"" ) zchar[ 4294967296 ]
+calculatedFrom@lengthOf( pack )	`100% of %d` ,char[]body@calculatedFrom( ""// no comment"" )  ,
+@tag( 007) //x
+int8
+leftPad`it's` , repeat pack
+    { = char[ 3] body
+,},
+}")).
+Eval vm_compute in ("<<<M4500>>>" ++ check (runes_of_ascii "
+MetaData rootA
 
-    n{
+    {
 
-    [ 1,  22
-    , ""c c""
-, 4 ,
+    lengthOf	falsey 
+`crlf
+line`	,
+	u32
 
-5
-,""f""
+    u8x`say ""hi""`	// " ++ [128512]%N ++ runes_of_ascii " emoji
+	  ,int16 As
+`two words`
 ,
-	7 ,
 
-8	,  ""i"" 
-] : B
-	2:
+    zchar[3  
+      // c
+	  // a // b
+      ] x 
+        //x
+    `
+`  
+      /// triple
+  // c
 
-C
-}	,
+	,
+	}
+")).
+Eval vm_compute in ("<<<M4510>>>" ++ check (runes_of_ascii "
+MetaData
+
+    u
+
+{
+	i8
+
+tag  `two words` ,}root	packet 
+Logon {@lengthOf(A
+    ) @tag( 007
+    )A
+
+    matchKey ,
+
+    } 
+options
+
+    {
+
+A
+= false;
+
+    string_ 
+    /// triple
+
+= ' '	;
+    a1  =
+
+    ""a	b""	}
+")).
+Eval vm_compute in ("<<<M1616>>>" ++ check (runes_of_ascii "packet calculatedFrom
+{ @calculatedFrom( ""a\\"" ) zchar[ 4294967296 ]
+calculatedFrom@lengthOf( pack )	`100% of %d` ,char[]body@calculatedFrom( ""// no comment"" )  ,
+@tag( 007) //x
+int8
+leftPad`it's` , repeat pack
+ ")).
+Eval vm_compute in ("<<<M1024>>>" ++ check (runes_of_ascii "MetaData stringy { i16 string_ `u8 x,`
+    , char T
+    ,charz Packet, i64
+    int
+/// triple
+// `tick` ""quote"" 'q'
+, f64
+    options1 // `tick` ""quote"" 'q'
+`tab	here`
+,
+    f32a stringy
+`say ""hi""` ,}
+")).
+Eval vm_compute in ("<<<M657>>>" ++ check (runes_of_ascii "packet T { @tag( 00)
+f32
+    metadata
+@lengthOf(// @lengthOf(
+crc ) `// not a comment` ,
+repeat	uint16 As, @tag(65535 ) int8
+    // `tick` ""quote"" 'q'
+    metadata
+@lengthOf(  BodyLength
+    ),}
+")).
+Eval vm_compute in ("<<<M3665>>>" ++ check (runes_of_ascii "
+
+  MetaData	float  {
+MetaDataX charz	,
+u128  A// @lengthOf(
+	`u8 x,`	,
+
+    MetaDataX
+    falsey
+    ,
+u8x
+repeatCount
+,
+	i32	asx , 
+float64 
+zchar
+`" ++ [233]%N ++ runes_of_ascii "` /// triple
+  ,}
+	options { }
+
+")).
+Eval vm_compute in ("<<<M1252>>>" ++ check (runes_of_ascii "
+packet	_x {// `tick` ""quote"" 'q'
+crc  i64_
+    /// triple
+    `say ""hi""`
+    // @lengthOf(
+    , @calculatedFrom( ""packet""
+)	crc body, char
+    stringy // `tick` ""quote"" 'q'
+`
+` , }")).
+Eval vm_compute in ("<<<M1086>>>" ++ check (runes_of_ascii "options {o=
+// @lengthOf(
+// trailing space 
+""" ++ [28040; 24687]%N ++ runes_of_ascii """ ; } MetaData
+T{
+pack
+    // packet A { u8 x, }
+    Header ,
+    char[65535 ]	u ,roots
+    msg_type ,
+uint8x BodyLength , }
+")).
+Eval vm_compute in ("<<<M868>>>" ++ check (runes_of_ascii "
+packet f32a {
+    float64 u8x `it's`, @rightPad
+( '0')	uint32 x_y_z, @calculatedFrom( """ ++ [28040; 24687]%N ++ runes_of_ascii """ /// triple
+)  repeat
+// " ++ [128512]%N ++ runes_of_ascii " emoji
+// c
+asx {f32
+    matchKey
+    , }	,
+} 	 ")).
+Eval vm_compute in ("<<<M2377>>>" ++ check (runes_of_ascii "
+packet MetaDataX
+{
+    @leftPad
+( // a // b
+'0'
+) i8 u @lengthOf(
+MetaDataX
+    ) `say ""hi""` ,	} MetaData BodyLength options
+    asx
+x_y_z `" ++ [233]%N ++ runes_of_ascii "`
+, uint64 u128 , }
+")).
+Eval vm_compute in ("<<<M1693>>>" ++ check (runes_of_ascii "options { } packet Packet{char[] i64_ ,
+@tag(
+    255) match match
+crc as i8i8{""{,}"" : trueish """" : Pad , ""a\\"" :
+Foo ,
+    1 :packetx
+, """ ++ [128512]%N ++ runes_of_ascii """ : trueish , } , }")).
+Eval vm_compute in ("<<<M2421>>>" ++ check (runes_of_ascii "
+packet MetaDataX
+{
+    @leftPad
+( // a // b
+'0'
+) i8 u @lengthOf(
+MetaDataX
+    ) `say ""hi""` ,	} } MetaData BodyLength {
+    asx
+x_y_z `" ++ [233]%N ++ runes_of_ascii "`
+, uint64 u128 , }
+")).
+Eval vm_compute in ("<<<M2353>>>" ++ check (runes_of_ascii "
+packet MetaDataX
+{
+    @leftPad
+( // a // b
+'0'
+) i8 u @lengthOf(
+MetaDataX
+    ) `say ""hi""` }	, MetaData BodyLength {
+    asx
+x_y_z `" ++ [233]%N ++ runes_of_ascii "`
+, uint64 u128 , }
+")).
+Eval vm_compute in ("<<<M1748>>>" ++ check (runes_of_ascii "options { } packet Packet{char[] i64_ ,
+@tag(
+    255) match
+crc as i8i8{""{,}"" : trueish """" : Pad , , ""a\\"" :
+Foo ,
+    1 :packetx
+, """ ++ [128512]%N ++ runes_of_ascii """ : trueish , } , }")).
+Eval vm_compute in ("<<<M1651>>>" ++ check (runes_of_ascii "options { } float32 Packet{char[] i64_ ,
+@tag(
+    255) match
+crc as i8i8{""{,}"" : trueish """" : Pad , ""a\\"" :
+Foo ,
+    1 :packetx
+, """ ++ [128512]%N ++ runes_of_ascii """ : trueish , } , }")).
+Eval vm_compute in ("<<<M1684>>>" ++ check (runes_of_ascii "options { } packet Packet{char[] i64_ ,
+@tag(
+    )255 match
+crc as i8i8{""{,}"" : trueish """" : Pad , ""a\\"" :
+Foo ,
+    1 :packetx
+, """ ++ [128512]%N ++ runes_of_ascii """ : trueish , } , }")).
+Eval vm_compute in ("<<<M2383>>>" ++ check (runes_of_ascii "
+packet MetaDataX
+{
+    @leftPad
+( // a // b
+
+) i8 u @lengthOf(
+MetaDataX
+    ) `say ""hi""` ,	} MetaData BodyLength {
+    asx
+x_y_z `" ++ [233]%N ++ runes_of_ascii "`
+, uint64 u128 , }
+")).
+Eval vm_compute in ("<<<M3599>>>" ++ check (runes_of_ascii "MetaData falsey {
+    u64 stringy,
+    asx T,
+    u16 f32a,
+    BodyLength tag `line1
+    line2`,
+    u T,// 50% %s
+    int64 repeatCount,// @lengthOf(
+}")).
+Eval vm_compute in ("<<<M1762>>>" ++ check (runes_of_ascii "options { } packet Packet{char[] i64_ ,
+@tag(
+    255) match
+crc as i8i8{""{,}"" : trueish """" : Pad , ""a\\"" :
+ ,
+    1 :packetx
+, """ ++ [128512]%N ++ runes_of_ascii """ : trueish , } , }")).
+Eval vm_compute in ("<<<M735>>>" ++ check (runes_of_ascii "root packet float  { }	options {
+float
+    = // " ++ [27880; 37322]%N ++ runes_of_ascii "
+""packet"" ; o /// triple
+= true// @lengthOf(
+; pack= zchar[ 7 ];x = false}	root packet Logon { }")).
+Eval vm_compute in ("<<<M762>>>" ++ check (runes_of_ascii "  MetaData
+u
+{ Packet string_ ,}
+    MetaData A {
+} root packet roots{
+@leftPad ( ' ' ) packetx// trailing space 
+@lengthOf( Packet ) `" ++ [233]%N ++ runes_of_ascii "`
+, }
+")).
+Eval vm_compute in ("<<<M886>>>" ++ check (runes_of_ascii "MetaData calculatedFrom { x_y_z
+tag
+    ,  } // @lengthOf(
+options {
+    BodyLength = true ; // c
+} root //
+packet
+    string_ {
+} // " ++ [27880; 37322]%N)).
+Eval vm_compute in ("<<<M1035>>>" ++ check (runes_of_ascii "packet
+zchar{ string u8x
+    , @lengthOf(matchKey ) char[ // c
+3 // packet A { u8 x, }
+] a1
+@lengthOf( lengthOf ) `two words` ,
+} //	t")).
+Eval vm_compute in ("<<<M308>>>" ++ check (runes_of_ascii "MetaData zchar // " ++ [27880; 37322]%N ++ runes_of_ascii "
+{ charz
+Logon	`{ , }` , f32 float
+, Packet body `crlf
+line` , f32 metadata , char lengthOf , } // @lengthOf(")).
+Eval vm_compute in ("<<<M4423>>>" ++ check (runes_of_ascii "root packet asx {
+    u64 T `doc`,
+}
+
+MetaData Header {
+    pack o ``,
+}
+
+MetaData repeatCount {
+    pack roots `" ++ [233]%N ++ runes_of_ascii "`,
+    // c
+}")).
+Eval vm_compute in ("<<<M3278>>>" ++ check (runes_of_ascii "MetaData metadata { } MetaData rootA { i8 i64_ // c
+, roots options1 `a\` , lengthOf Header , Z9_ Foo , int16 BodyLength , }")).
+Eval vm_compute in ("<<<M4029>>>" ++ check (runes_of_ascii "MetaData float {
+    uint8 BodyLength,
+}
+
+MetaData charz {
+    float32 trueish `a\`,
+    i16 metadata `say ""hi""`,
+    // c
+}")).
+Eval vm_compute in ("<<<M559>>>" ++ check (runes_of_ascii "root packet Packet{ @calculatedFrom( ""\" ++ [233]%N ++ runes_of_ascii """ )Header
+// a // b
+// packet A { u8 x, }
+@lengthOf(
+    i64_ )
+`{ , }`  , }
+")).
+Eval vm_compute in ("<<<M3844>>>" ++ check (runes_of_ascii "packet A {
+    u16 len @lengthOf(body) `x
+    `,
+    u32 crc @calculatedFrom(""CRC32"") `x
+    `,
+    string body,
+}")).
+Eval vm_compute in ("<<<M3316>>>" ++ check (runes_of_ascii "// c
+MetaData float { uint8 BodyLength , } MetaData charz { float32 trueish `a\` , i16 metadata `say ""hi""` , }")).
+Eval vm_compute in ("<<<M3349>>>" ++ check (runes_of_ascii "MetaData float { uint8 BodyLength , } MetaData charz { float32 trueish `a\` , i16 metadata
+// c
+`say ""hi""` , }")).
+Eval vm_compute in ("<<<M2987>>>" ++ check (runes_of_ascii "packet A {
+  match k as n {
+    [""a"", ""bb"", ""c c"", ""d"", ""e"", ""f"", ""g"", ""h"", ""i"", ""j""] : B,
+    2 : C
+  },
+}")).
+Eval vm_compute in ("<<<M3019>>>" ++ check (runes_of_ascii "packet A {
+  match k as n {
+    [1, 22, ""c c"", 4, 5, ""f"", 7, 8, ""i"", 10, 11, ""l""] : B,
+    2 : C
+  },
+}")).
+Eval vm_compute in ("<<<M3002>>>" ++ check (runes_of_ascii "packet A {
+  match k as n {
+    [1, ""bb"", 007, ""d"", 5, ""f"", 7, ""h"", 9, ""j"", 11] : B,
+    2 : C
+  },
+}")).
+Eval vm_compute in ("<<<M1166>>>" ++ check (runes_of_ascii "
+options { Packet = false;} options {
+    Pad = char[]  ; }MetaData
+msg_type { i64 Foo ,
+    }
+
+")).
+Eval vm_compute in ("<<<M2245>>>" ++ check (runes_of_ascii "MetaData _x {string x `// not a comment` , string string
+i64_ // trailing space 
+`a\` ,
+    }
+")).
+Eval vm_compute in ("<<<M2970>>>" ++ check (runes_of_ascii "packet A {
+  match k as n {
+    [""a"", ""bb"", 007, ""d"", ""e"", 66, ""g"", ""h""] : B
+    2 : C
+  },
+}")).
+Eval vm_compute in ("<<<M2220>>>" ++ check (runes_of_ascii "MetaData _x { {string x `// not a comment` , string
+i64_ // trailing space 
+`a\` ,
+    }
+")).
+Eval vm_compute in ("<<<M2956>>>" ++ check (runes_of_ascii "packet A {
+  match k as n {
+    [""a"", ""bb"", 007, ""d"", ""e"", 66, ""g""] : B,
+    2 : C
+  },
+}")).
+Eval vm_compute in ("<<<M2219>>>" ++ check (runes_of_ascii "MetaData _x string x `// not a comment` , string
+i64_ // trailing space 
+`a\` ,
+    }
+")).
+Eval vm_compute in ("<<<M2967>>>" ++ check (runes_of_ascii "packet A {
+  match k as n {
+    [1, 22, ""c c"", 4, 5, ""f"", 7, 8] : B,
+    2 : C
+  },
+}")).
+Eval vm_compute in ("<<<M2944>>>" ++ check (runes_of_ascii "packet A {
+  match k as n {
+    [""a"", ""bb"", 007, ""d"", ""e"", 66] : B
+    2 : C
+  },
+}")).
+Eval vm_compute in ("<<<M3499>>>" ++ check (runes_of_ascii "packet orderItem {
+    u8 a,
+}
+root packet newOrder {
+    orderItem,
+    u8 x,
+}
+")).
+Eval vm_compute in ("<<<M2874>>>" ++ check (runes_of_ascii "] MetaData ) @lengthOf( [ : @rightPad '\x00' packet uint16 @calculatedFrom( u32")).
+Eval vm_compute in ("<<<M3897>>>" ++ check (runes_of_ascii "
+MetaData
+Z9_
+	{
+
+    char[] charz,T 
+i64_
+
+,  Logon  Z9_
+, 
+}
+    //	t
+")).
+Eval vm_compute in ("<<<M3382>>>" ++ check (runes_of_ascii "MetaData _x { f64 charz `tab	here` , } options { // c
+BodyLength = """ ++ [233]%N ++ runes_of_ascii "t" ++ [233]%N ++ runes_of_ascii """ ; }")).
+Eval vm_compute in ("<<<M3675>>>" ++ check (runes_of_ascii "
+packet	A
+	{ B
+
+    b `a
+b` 
+,B 
+`a
+b`	,
+repeat
+
+    B
+bs `a
+b`, }
+")).
+Eval vm_compute in ("<<<M3076>>>" ++ check (runes_of_ascii "MetaData M {
+    u8 x `100% of %s %d %v`,
+    T t `100% of %s %d %v`,
+}")).
+Eval vm_compute in ("<<<M2898>>>" ++ check (runes_of_ascii "packet A {
+  match k as n {
+    [1, ""bb"", 007] : B,
+    2 : C
+  },
+}")).
+Eval vm_compute in ("<<<M4169>>>" ++ check (runes_of_ascii "
+
+  MetaData uint8x	{
+	}options
+{
+
+    lengthOf = false
 
     }
 ")).
-Eval vm_compute in ("<<<M1353>>>" ++ check (runes_of_ascii "packet B {
-    u8 a,
-}
-root packet P {
-    u8 K,
-    match K as Body {
+Eval vm_compute in ("<<<M3226>>>" ++ check (runes_of_ascii "packet A {
+    match k as n {
         1 : B,
+        // c
     },
-    u16 L @lengthOf(Body),
-}
+}")).
+Eval vm_compute in ("<<<M1231>>>" ++ check (runes_of_ascii "MetaData options1 { u16
+matchKey , uint32	Packet
+,}
+options { }")).
+Eval vm_compute in ("<<<M506>>>" ++ check (runes_of_ascii "
+MetaData rootA { // `tick` ""quote"" 'q'
+} // trailing space ")).
+Eval vm_compute in ("<<<M3217>>>" ++ check (runes_of_ascii "packet A { // a
+ @tag(1) u8 x, // b
+ // c
+ @tag(2) u8 y, }")).
+Eval vm_compute in ("<<<M1696>>>" ++ check (runes_of_ascii "options { } packet Packet{char[] i64_ ,
+@tag(
+    255)")).
+Eval vm_compute in ("<<<M2893>>>" ++ check (runes_of_ascii "packet A { Inner { match k as n { [1,22] : B, }, }, }")).
+Eval vm_compute in ("<<<M108>>>" ++ check (runes_of_ascii "// " ++ [27880; 37322]%N ++ runes_of_ascii "
+MetaData len {zchar[ 0123456789
+] i64_ , }
+
 ")).
-Eval vm_compute in ("<<<M652>>>" ++ check (runes_of_ascii "MetaData
-    // trailing space 
-    matchKey
-{ u64 chars // a // b
-,char[] lengthOf `// not a comment`
-    , //	t
-" ++ [0]%N ++ runes_of_ascii " }")).
-Eval vm_compute in ("<<<M614>>>" ++ check (runes_of_ascii "MetaData
-    // trailing space 
-    matchKey
-{ u64 chars // a // b
-}char[] lengthOf `// not a comment`
-    , //	t
+Eval vm_compute in ("<<<M2388>>>" ++ check (runes_of_ascii "
+packet MetaDataX
+{
+    @leftPad
+( // a // b
+'0'")).
+Eval vm_compute in ("<<<M2298>>>" ++ check (runes_of_ascii "
+MetaData Pad
+u32 rootA `line1
+line2` ,
+    }
+")).
+Eval vm_compute in ("<<<M2669>>>" ++ check (runes_of_ascii "MetaData M { u8 x `d` , y z `e`, char[3] w, }")).
+Eval vm_compute in ("<<<M3058>>>" ++ check (runes_of_ascii "MetaData M {
+    u8 x `x
+`,
+    T t `x
+`,
 }")).
-Eval vm_compute in ("<<<M1887>>>" ++ check (runes_of_ascii "packet Pad{ } packet	options1{// trailing space 
+Eval vm_compute in ("<<<M3249>>>" ++ check (runes_of_ascii "MetaData zchar { zchar[ 3 ] Pad , } // c
+")).
+Eval vm_compute in ("<<<M4448>>>" ++ check (runes_of_ascii "options {
+    a = 1// c
+    b = 2;// d
+}")).
+Eval vm_compute in ("<<<M1145>>>" ++ check (runes_of_ascii "root
+    packet tag
+    { } // a // b")).
+Eval vm_compute in ("<<<M4092>>>" ++ check (runes_of_ascii "packet A {
+    u8 x,// c
+    u8 y,
+}")).
+Eval vm_compute in ("<<<M2637>>>" ++ check (runes_of_ascii "packet A { match k as n { 1 B }, }")).
+Eval vm_compute in ("<<<M4445>>>" ++ check (runes_of_ascii "
 
+  root packet
+
+    As  {
 }
 
-// @lengthOf(
-
-root  packet crc {  repeat crc  len
-
-    ,
-
-}")).
-Eval vm_compute in ("<<<M924>>>" ++ check (runes_of_ascii "packet A {
-    u16 len @lengthOf(body) `a
+")).
+Eval vm_compute in ("<<<M339>>>" ++ check (runes_of_ascii "options
+{ zchar=  int16
+    }
+")).
+Eval vm_compute in ("<<<M3030>>>" ++ check (runes_of_ascii "packet A {
+    u8 x `a
 b`,
-    u32 crc @calculatedFrom(""CRC32"") `a
-b`,
-    string body,
 }")).
-Eval vm_compute in ("<<<M954>>>" ++ check (runes_of_ascii "packet A {
-    u16 len @lengthOf(body) `
-x`,
-    u32 crc @calculatedFrom(""CRC32"") `
-x`,
-    string body,
+Eval vm_compute in ("<<<M3054>>>" ++ check (runes_of_ascii "packet A {
+    u8 x `x
+`,
 }")).
-Eval vm_compute in ("<<<M1262>>>" ++ check (runes_of_ascii "packet calculatedFrom { @tag( 4294967296
-// c
-) u msg_type , char[ 3 ] crc @lengthOf( len ) `u8 x,` , }")).
-Eval vm_compute in ("<<<M866>>>" ++ check (runes_of_ascii "packet A {
-  match k as n {
-    [""a"", ""bb"", ""c c"", ""d"", ""e"", ""f"", ""g"", ""h"", ""i""] : B,
-    2 : C
-  },
-}")).
-Eval vm_compute in ("<<<M874>>>" ++ check (runes_of_ascii "packet A {
-  match k as n {
-    [""a"", ""bb"", 007, ""d"", ""e"", 66, ""g"", ""h"", 9] : B,
-    2 : C
-  },
-}")).
-Eval vm_compute in ("<<<M1140>>>" ++ check (runes_of_ascii "packet Logon { @tag( 42 ) // c
-@rightPad ( ' ' ) @leftPad ( ) repeat trueish { string T , } , }")).
-Eval vm_compute in ("<<<M1835>>>" ++ check (runes_of_ascii "packet Pad {
-    @calculatedFrom(""CRC32"")
-    @tag(7)
-    float32 u128 @calculatedFrom(""\n""),
-}")).
-Eval vm_compute in ("<<<M857>>>" ++ check (runes_of_ascii "packet A {
-  match k as n {
-    [""a"", 22, ""c c"", 4, ""e"", 66, ""g"", 8] : B,
-    2 : C
-  },
-}")).
-Eval vm_compute in ("<<<M1181>>>" ++ check (runes_of_ascii "// top
-options
-    // c0
-{
-    // c1
-u8x
-    // c2
-=
-    // c3
-3
-    // c4
-}
-    // c5
+Eval vm_compute in ("<<<M642>>>" ++ check (runes_of_ascii "options  {
+Logon=  42 }
 ")).
-Eval vm_compute in ("<<<M177>>>" ++ check (runes_of_ascii "MetaData Header
-{ trueish u8x , zchar[ 42 ] Packet
-    , char asx	,// @lengthOf(
-}")).
-Eval vm_compute in ("<<<M1223>>>" ++ check (runes_of_ascii "packet o { @tag( 42 ) repeat x
-// c
-{ char[ 0123456789 ] i64_ , } , } options { }")).
-Eval vm_compute in ("<<<M822>>>" ++ check (runes_of_ascii "packet A {
-  match k as n {
-    [""a"", ""bb"", 007, ""d"", ""e""] : B,
-    2 : C
-  },
-}")).
-Eval vm_compute in ("<<<M1762>>>" ++ check (runes_of_ascii "
-
-  root
-	packet P
-{
-	u16 a	, u32  Sum @calculatedFrom(
-	""CRC32""
-    ), 
-}
-
+Eval vm_compute in ("<<<M3212>>>" ++ check (runes_of_ascii "packet A { // a
+ u8 x, }")).
+Eval vm_compute in ("<<<M426>>>" ++ check (runes_of_ascii "
+packet matchKey { }
 ")).
-Eval vm_compute in ("<<<M803>>>" ++ check (runes_of_ascii "packet A {
-  match k as n {
-    [1, ""bb"", 007, ""d""] : B,
-    2 : C
-  },
-}")).
-Eval vm_compute in ("<<<M796>>>" ++ check (runes_of_ascii "packet A {
-  match k as n {
-    [""a"", ""bb"", 007] : B,
-    2 : C
-  },
-}")).
-Eval vm_compute in ("<<<M794>>>" ++ check (runes_of_ascii "packet A {
-  match k as n {
-    [1, 22, ""c c""] : B,
-    2 : C
-  },
-}")).
-Eval vm_compute in ("<<<M754>>>" ++ check (runes_of_ascii "= uint8 ' ' @tag( { zchar[ 00 zchar uint32 int64 u8 : [ stringy")).
-Eval vm_compute in ("<<<M1660>>>" ++ check (runes_of_ascii "MetaData M {
-    u8 x `
-        x`,
-    T t `
-        x`,
-}")).
-Eval vm_compute in ("<<<M1077>>>" ++ check (runes_of_ascii "// a
-MetaData M {} // b
-// c
-MetaData N {} // d
-// e")).
-Eval vm_compute in ("<<<M1867>>>" ++ check (runes_of_ascii "
-root
-packet	A
-{
-u8
-
-    x  `x
-` , 
-} ")).
-Eval vm_compute in ("<<<M1115>>>" ++ check (runes_of_ascii "MetaData zchar { zchar[ 3 ]
-// c
-Pad , }")).
-Eval vm_compute in ("<<<M1782>>>" ++ check (runes_of_ascii "MetaData zchar {
-    zchar[3] Pad,
-}")).
-Eval vm_compute in ("<<<M1852>>>" ++ check (runes_of_ascii "packet A {
-    u8 x `d" ++ [8202]%N ++ runes_of_ascii "`,// c" ++ [8202]%N ++ runes_of_ascii "
-}")).
-Eval vm_compute in ("<<<M1047>>>" ++ check (runes_of_ascii "packet A {
- u8 x `d" ++ [8203]%N ++ runes_of_ascii "`, // c" ++ [8203]%N ++ runes_of_ascii "
-}")).
-Eval vm_compute in ("<<<M736>>>" ++ check ([25; 65533]%N ++ runes_of_ascii "\" ++ [65533]%N ++ runes_of_ascii "v" ++ [65533]%N ++ runes_of_ascii "
-K" ++ [65533; 65533; 65533]%N ++ runes_of_ascii "Xsz" ++ [65533]%N ++ runes_of_ascii "L" ++ [65533; 65533; 17; 65533; 23]%N ++ runes_of_ascii "<=B?")).
-Eval vm_compute in ("<<<M127>>>" ++ check (runes_of_ascii "packet Foo{/// triple
-}")).
-Eval vm_compute in ("<<<M1061>>>" ++ check (runes_of_ascii "// c x
-packet A {
-}")).
-Eval vm_compute in ("<<<M1036>>>" ++ check (runes_of_ascii "// c" ++ [12]%N ++ runes_of_ascii "
-packet A {
-}")).
-Eval vm_compute in ("<<<M1053>>>" ++ check (runes_of_ascii "packet A {
-}// c" ++ [6158]%N)).
-Eval vm_compute in ("<<<M1856>>>" ++ check (runes_of_ascii "
-// c" ++ [11]%N ++ runes_of_ascii "
+Eval vm_compute in ("<<<M195>>>" ++ check (runes_of_ascii "MetaData
+T
+    { }
 ")).
-Eval vm_compute in ("<<<M56>>>" ++ check (runes_of_ascii "
-")).
+Eval vm_compute in ("<<<M1656>>>" ++ check (runes_of_ascii "options { } packet")).
+Eval vm_compute in ("<<<M3167>>>" ++ check (runes_of_ascii "packet A {
+}// c 	")).
+Eval vm_compute in ("<<<M3102>>>" ++ check (runes_of_ascii "packet A {
+}// c ")).
+Eval vm_compute in ("<<<M2738>>>" ++ check (runes_of_ascii ": uint32 '0' f64")).
+Eval vm_compute in ("<<<M2828>>>" ++ check ([65533]%N ++ runes_of_ascii "5" ++ [65533; 65533; 65533; 65533; 65533]%N ++ runes_of_ascii "lD" ++ [5]%N ++ runes_of_ascii "
+" ++ [65533; 174; 65533]%N)).
+Eval vm_compute in ("<<<M430>>>" ++ check (runes_of_ascii " /// triple")).
+Eval vm_compute in ("<<<M2508>>>" ++ check (runes_of_ascii "@lengthOf")).
+Eval vm_compute in ("<<<M2483>>>" ++ check (runes_of_ascii "repeats")).
+Eval vm_compute in ("<<<M4400>>>" ++ check (runes_of_ascii "
+// c" ++ [8287]%N)).
+Eval vm_compute in ("<<<M3138>>>" ++ check (runes_of_ascii "// c" ++ [8232]%N)).
+Eval vm_compute in ("<<<M2566>>>" ++ check (runes_of_ascii "a
+b")).
+Eval vm_compute in ("<<<M2564>>>" ++ check (runes_of_ascii "ab")).
+Eval vm_compute in ("<<<M2796>>>" ++ check (runes_of_ascii "C" ++ [65533]%N)).
